@@ -5,7 +5,7 @@
    the current_line stack: the "frame") and, where the current line is not the last line (after a child
    line context has returned to its header line), of the shape `GS`; effect lemmas for the primitives; an
    induction over the syntax tree for the statement-list loop, generic in the kind of the enclosing block
-   (begin/end, repeat/until, try/finally, try/except), in the frame and in the parent of the enclosing
+   (begin/end, repeat/until, try/finally, try/except, the arms and the else part of a case statement), in the frame and in the parent of the enclosing
    child line context.  The bodies of `if`/`while` are child lines: `child_run` crosses from the frame of
    the header line to the frame of its child lines and back. *)
 From PasfmtVerif Require Import Model.Fragment Model.DirectiveTree Proofs.DirectiveTreeProofs Proofs.ParserKernelProofs Proofs.ParserGrammarProofs
@@ -16,7 +16,8 @@ Definition plain (t : RawTokenType) : Prop :=
   match t with
   | RTT_Identifier | RTT_Op OK_Semicolon | RTT_Op OK_Assign | RTT_Op OK_Dot | RTT_Keyword KK_Begin | RTT_Keyword KK_End
   | RTT_Keyword KK_Repeat | RTT_Keyword KK_Until | RTT_Keyword KK_Try | RTT_Keyword KK_Finally | RTT_Keyword KK_Except
-  | RTT_Keyword KK_If | RTT_Keyword KK_Then | RTT_Keyword KK_Else | RTT_Keyword KK_While | RTT_Keyword KK_Do | RTT_Eof => True
+  | RTT_Keyword KK_If | RTT_Keyword KK_Then | RTT_Keyword KK_Else | RTT_Keyword KK_While | RTT_Keyword KK_Do
+  | RTT_Keyword KK_Case | RTT_Keyword KK_Of | RTT_Op OK_Colon | RTT_Eof => True
   | _ => False
   end.
 
@@ -36,7 +37,47 @@ Proof.
 Qed.
 
 Ltac len_tac := repeat (first [rewrite app_length | rewrite map_length | progress cbn [length]]); lia.
-Scheme stmts_mut := Induction for stmts Sort Prop with tbody_mut := Induction for tbody Sort Prop.
+Scheme stmts_mut := Induction for stmts Sort Prop with tbody_mut := Induction for tbody Sort Prop
+  with arms_mut := Induction for arms Sort Prop.
+
+(* the lines of the arms of a case statement (Fragment.arms_lines) split at the `end`/`else` line: the lines
+   before it, the index of that line, and the child lines owed by the last arm *)
+Fixpoint arms_pre (par : option (nat * nat)) (d : Z) (k li : nat) (a : arms) (pend : nat -> list lline) : list lline :=
+  match a with
+  | ANil => []
+  | ACons c a' =>
+      let e := k + 2 + length (render_body c) in
+      mkLine LLT_CaseArm (lvl (d + 1)) par [k; k + 1] :: pend (li + 1)
+      ++ arms_pre par d (e + 1) (li + 1 + length (pend (li + 1))) a' (fun i => pexpected_body (Some (li, k + 1)) (k + 2) i (Some e) c)
+  end.
+Fixpoint arms_li (k li : nat) (a : arms) (pend : nat -> list lline) : nat :=
+  match a with
+  | ANil => li
+  | ACons c a' =>
+      let e := k + 2 + length (render_body c) in
+      arms_li (e + 1) (li + 1 + length (pend (li + 1))) a' (fun i => pexpected_body (Some (li, k + 1)) (k + 2) i (Some e) c)
+  end.
+Fixpoint arms_pend (k li : nat) (a : arms) (pend : nat -> list lline) : nat -> list lline :=
+  match a with
+  | ANil => pend
+  | ACons c a' =>
+      let e := k + 2 + length (render_body c) in
+      arms_pend (e + 1) (li + 1 + length (pend (li + 1))) a' (fun i => pexpected_body (Some (li, k + 1)) (k + 2) i (Some e) c)
+  end.
+Lemma arms_lines_eq : forall a par d k li pend tail,
+  arms_lines par d k li a pend tail
+  = arms_pre par d k li a pend ++ tail (k + length (render_arms a)) (arms_li k li a pend) (arms_pend k li a pend (arms_li k li a pend + 1)).
+Proof.
+  induction a as [|c a IH]; intros par d k li pend tail; cbn [arms_lines arms_pre arms_li arms_pend render_arms length app]; cbv zeta.
+  - rewrite Nat.add_0_r. reflexivity.
+  - rewrite IH. rewrite <- app_assoc. cbn [app]. do 3 f_equal.
+    rewrite app_length. cbn [length]. f_equal. lia.
+Qed.
+Lemma arms_li_eq : forall a par d k li pend, arms_li k li a pend = li + length (arms_pre par d k li a pend).
+Proof.
+  induction a as [|c a IH]; intros par d k li pend; cbn [arms_pre arms_li length]; cbv zeta; [lia|].
+  rewrite (IH par d). rewrite app_length. lia.
+Qed.
 
 Section Frag.
 Variable T : list RawTokenType.
@@ -181,18 +222,26 @@ Proof.
   apply set_line_type_ST, H.
 Qed.
 
-Lemma plain_not_eq_colon t : plain t -> match t with RTT_Op (OK_Equal _ | OK_Colon) => true | _ => false end = false.
-Proof. destruct t as [o| | | | | | | | | |]; try reflexivity. destruct o; try reflexivity; contradiction. Qed.
+(* no token of the fragment is a portability keyword candidate: consolidate_portability_directives changes nothing *)
+Lemma portability_go_noop : forall li (s : pstate), ps_toks pass s = T -> portability_go pass li s = s.
+Proof.
+  induction li as [|p IH]; intros s Tk; cbn [portability_go]; (destruct (nth_error (cur_toks pass s) _) as [ti|]; [|reflexivity]); cbv zeta.
+  all: repeat match goal with |- (if ?c then _ else _) = _ => destruct c; [reflexivity|] end.
+  all: unfold tt_at; rewrite Tk; destruct (nth_error T ti) as [t|] eqn:E; try reflexivity; try (apply IH, Tk).
+  all: pose proof (plain_nth _ _ E) as P; destruct t; try contradiction; try reflexivity; try (apply IH, Tk).
+Qed.
+Lemma portability_noop_G (s : pstate) : ps_toks pass s = T -> consolidate_portability_directives pass s = s.
+Proof.
+  intros Tk. unfold consolidate_portability_directives.
+  destruct (cur_toks pass s) as [|t0 r] eqn:Ec; [unfold cur_line_tts; rewrite Ec; reflexivity|].
+  match goal with |- (if ?c then _ else _) = _ => destruct c; [reflexivity|] end.
+  cbn [length]. match goal with |- (if ?c then _ else _) = _ => destruct c end.
+  - destruct (skip_trailing_comments pass s (length r)); [reflexivity|apply portability_go_noop, Tk].
+  - apply portability_go_noop, Tk.
+Qed.
 Lemma portability_noop s k L c M mc last cx lv a :
   ST s k L c M mc last cx lv a -> consolidate_portability_directives pass s = s.
-Proof.
-  intros H. unfold consolidate_portability_directives.
-  assert (X : existsb (fun t => match t with RTT_Op (OK_Equal _ | OK_Colon) => true | _ => false end) (cur_line_tts pass s) = false).
-  { unfold cur_line_tts. induction (cur_toks pass s) as [|i r IH]; [reflexivity|]. cbn [flat_map]. rewrite existsb_app, IH, orb_false_r.
-    unfold tt_at. rewrite (ST_toks _ _ _ _ _ _ _ _ _ _ H). destruct (nth_error T i) as [t|] eqn:E; [|reflexivity].
-    cbn [existsb]. rewrite (plain_not_eq_colon _ (plain_nth _ _ E)). reflexivity. }
-  rewrite X. reflexivity.
-Qed.
+Proof. intros H. apply portability_noop_G, (ST_toks _ _ _ _ _ _ _ _ _ _ H). Qed.
 Lemma inline_noop s f : is_inline_comment (cur_tt pass s) = false -> inline_comments_go pass (S f) s = s.
 Proof.
   intros H. cbn [inline_comments_go]. destruct (has_err pass s); [reflexivity|].
@@ -354,7 +403,7 @@ Qed.
 
 (* the kinds of statement blocks of the fragment: they differ in the terminating keyword and in the kind of
    the statement contexts inside (`except` blocks: SK_Except) *)
-Inductive blk := KBegin | KRepeat | KTry | KFinally | KTryE | KExcept.
+Inductive blk := KBegin | KRepeat | KTry | KFinally | KTryE | KExcept | KCase | KCaseE | KElse.
 Definition cBlk (b : blk) : pctx :=
   match b with
   | KBegin => ctx (CT_StatementBlock BK_Begin) true P_end (L 1)
@@ -362,19 +411,21 @@ Definition cBlk (b : blk) : pctx :=
   | KTry | KTryE => ctx (CT_StatementBlock BK_Try) true P_except_finally (L 1)
   | KFinally => ctx (CT_StatementBlock BK_Finally) true P_else_end (L 1)
   | KExcept => ctx (CT_StatementBlock BK_Except) true P_else_end (L 1)
+  | KCase | KCaseE => ctx (CT_Statement SK_Case) true P_else_end (L 1)
+  | KElse => ctx (CT_StatementBlock BK_Else) true P_end (L 1)
   end.
-Definition sk_of (b : blk) : skind := match b with KExcept => SK_Except | _ => SK_Normal end.
+Definition sk_of (b : blk) : skind := match b with KExcept => SK_Except | KCase | KCaseE => SK_Case | _ => SK_Normal end.
 (* the statement context of the statements of a block *)
 Definition cStk (b : blk) : pctx := ctx (CT_Statement (sk_of b)) false P_semicolon (L 0).
 Definition slc (b : blk) : call := C_stmt_list (CT_Statement (sk_of b)) false P_semicolon.
 Definition tTerm (b : blk) : RawTokenType :=
-  match b with KBegin | KFinally | KExcept => tEnd | KRepeat => tUntil | KTry => tFinally | KTryE => tExcept end.
+  match b with KBegin | KFinally | KExcept | KCase | KElse => tEnd | KRepeat => tUntil | KTry => tFinally | KTryE => tExcept | KCaseE => tElse end.
 Definition is_term (b : blk) (t : RawTokenType) : bool :=
   match t with
-  | RTT_Keyword KK_End => match b with KBegin | KFinally | KExcept => true | _ => false end
+  | RTT_Keyword KK_End => match b with KBegin | KFinally | KExcept | KCase | KCaseE | KElse => true | _ => false end
   | RTT_Keyword KK_Until => match b with KRepeat => true | _ => false end
   | RTT_Keyword (KK_Finally | KK_Except) => match b with KTry | KTryE => true | _ => false end
-  | RTT_Keyword KK_Else => match b with KFinally | KExcept => true | _ => false end
+  | RTT_Keyword KK_Else => match b with KFinally | KExcept | KCase | KCaseE => true | _ => false end
   | _ => false
   end.
 Lemma is_term_term b : is_term b (tTerm b) = true. Proof. destruct b; reflexivity. Qed.
@@ -415,6 +466,8 @@ Lemma run_S f c s : has_err pass s = false ->
   | C_line_section cx => arm_line_section pass (RUN f) cx s
   | C_if_then => arm_if_then pass (RUN f) s
   | C_do b => arm_do pass (RUN f) b s
+  | C_case_statement => arm_case_statement pass (RUN f) s
+  | C_case_arm p => arm_case_arm pass (RUN f) p s
   | _ => RUN (S f) c s
   end.
 Proof. intros E. cbn [run]. rewrite E. destruct c; reflexivity. Qed.
@@ -460,13 +513,16 @@ Qed.
 Lemma last_ctx_ST s k L c M mc last x fl r lv a : ST s k L c M mc last ((x, fl) :: r) lv a -> last_ctx pass s = Some x.
 Proof. intros H. unfold last_ctx. rewrite (ST_ctx _ _ _ _ _ _ _ _ _ _ H). reflexivity. Qed.
 Lemma prelude_continue s k L c M mc last C lv a t :
+  sk_of bk <> SK_Case ->
   ST s k L c M mc last (((cStk bk), false) :: (cSB, false) :: C) lv a -> nth_error T k = Some t ->
   t <> tSemi -> is_term bk t = false -> statement_prelude pass s = (s, true).
 Proof.
-  intros H Ht N1 N2. unfold statement_prelude. rewrite (last_ctx_ST _ _ _ _ _ _ _ _ _ _ _ _ H), (ending_St_SB _ _ _ _ _ _ _ _ _ _ _ H Ht), N2.
+  intros Hsk H Ht N1 N2. unfold statement_prelude. rewrite (last_ctx_ST _ _ _ _ _ _ _ _ _ _ _ _ H), (ending_St_SB _ _ _ _ _ _ _ _ _ _ _ H Ht), N2.
   pose proof (plain_nth _ _ Ht) as P.
-  destruct t as [o| |k0|k0| | | | | | |]; try contradiction; try (destruct (at_start pass s), bk; reflexivity).
-  destruct o; try contradiction; try (destruct (at_start pass s), bk; reflexivity).
+  assert (Hb : c_type (cStk bk) = CT_Statement SK_Normal \/ c_type (cStk bk) = CT_Statement SK_Except)
+    by (clear -Hsk; destruct bk; try (left; reflexivity); try (right; reflexivity); exfalso; apply Hsk; reflexivity).
+  destruct t as [o| |k0|k0| | | | | | |]; try contradiction; try (destruct (at_start pass s); [destruct Hb as [-> | ->]|]; reflexivity).
+  destruct o; try contradiction; try (destruct (at_start pass s); [destruct Hb as [-> | ->]|]; reflexivity).
 Qed.
 Lemma prelude_semicolon s k L c M mc last C lv a :
   ST s k L c M mc last (((cStk bk), false) :: (cSB, false) :: C) lv a -> nth_error T k = Some tSemi ->
@@ -478,11 +534,12 @@ Qed.
 (* parse_structures on `Identifier ;` inside a statement context: the identifier is consumed, the
    statement context is marked as ended in front of the `;` *)
 Lemma structures_simple f s k L M mc last C lv a :
+  sk_of bk <> SK_Case ->
   ST s k L [] M mc last (((cStk bk), false) :: (cSB, false) :: C) lv a ->
   nth_error T k = Some tI -> nth_error T (S k) = Some tSemi -> 3 <= f ->
   ST (RUN f C_structures s) (S k) L [k] M mc last (((cStk bk), true) :: (cSB, false) :: C) lv a.
 Proof.
-  intros H Hk Hk1 Hf. destruct f as [|[|[|f]]]; try lia.
+  intros Hsk H Hk Hk1 Hf. destruct f as [|[|[|f]]]; try lia.
   assert (Hkn : k < n) by (apply nth_error_Some; congruence).
   rewrite (run_S _ _ _ (ST_err _ _ _ _ _ _ _ _ _ _ H)).
   unfold arm_structures. rewrite (ST_cur_tt _ _ _ _ _ _ _ _ _ _ _ H Hk). cbn [tI].
@@ -491,7 +548,7 @@ Proof.
   (* parse_statement, first round: the identifier *)
   rewrite (run_S (S f) C_statement _ (ST_err _ _ _ _ _ _ _ _ _ _ H)).
   unfold arm_statement. rewrite (ST_cur_tt _ _ _ _ _ _ _ _ _ _ _ H Hk). cbn [tI].
-  rewrite (prelude_continue _ _ _ _ _ _ _ _ _ _ _ H Hk) by (discriminate || reflexivity). cbn [negb starm_of tI].
+  rewrite (prelude_continue _ _ _ _ _ _ _ _ _ _ _ Hsk H Hk) by (discriminate || reflexivity). cbn [negb starm_of tI].
   unfold st_label_cand, label_or_other. rewrite (ST_at_start _ _ _ _ _ _ _ _ _ _ H).
   rewrite (next_tt_ST _ _ _ _ _ _ _ _ _ _ _ H Hk1) by discriminate. cbn [tSemi o_colon andb].
   unfold t_other, t_loop.
@@ -525,6 +582,7 @@ Proof. intros E. rewrite (run_S _ _ _ E). reflexivity. Qed.
 
 (* one iteration of the statement-list loop on `Identifier ;` *)
 Lemma iter_simple f s k L M mc last C lv a t' :
+  sk_of bk <> SK_Case ->
   ST s k L [] M mc last ((cSB, false) :: C) lv a -> first_parent C = par ->
   nth_error T k = Some tI -> nth_error T (S k) = Some tSemi -> nth_error T (S (S k)) = Some t' -> t' <> tSemi ->
   4 <= f ->
@@ -532,11 +590,11 @@ Lemma iter_simple f s k L M mc last C lv a t' :
      (S (S k)) (L ++ [[k; S k]]) [] (M ++ [mkLM par (lvl (1 + plain_sum C)) LLT_Unknown])
      (mkLM None (lvl (1 + plain_sum C)) LLT_Unknown) (length L) ((cSB, false) :: C) lv a.
 Proof.
-  intros H HC Hk Hk1 Hk2 Hne Hf. destruct f as [|f]; [lia|].
+  intros Hsk H HC Hk Hk1 Hk2 Hne Hf. destruct f as [|f]; [lia|].
   rewrite (with_ctx_structures f (cStk bk) s (ST_err _ _ _ _ _ _ _ _ _ _ H) eq_refl).
   pose proof (finish_empty_ST _ _ _ _ _ _ _ _ _ H) as H0.
   pose proof (push_ctx_ST (cStk bk) _ _ _ _ _ _ _ _ _ _ H0) as H1.
-  pose proof (structures_simple f _ _ _ _ _ _ _ _ _ H1 Hk Hk1 ltac:(lia)) as H2.
+  pose proof (structures_simple f _ _ _ _ _ _ _ _ _ Hsk H1 Hk Hk1 ltac:(lia)) as H2.
   pose proof (pop_ctx_ST _ _ _ _ _ _ _ _ _ _ _ H2) as H3.
   pose proof (finish_ST _ _ _ _ _ _ _ _ _ _ H3 ltac:(discriminate)) as H4.
   rewrite first_parent_blk, plain_sum_blk, HC in H4. cbn [lm_type] in H4.
@@ -549,13 +607,14 @@ Qed.
 
 (* ---------------- `Identifier := Identifier ;` *)
 Lemma structures_assign f s k Ls M mc last C lv a :
+  sk_of bk <> SK_Case ->
   ST s k Ls [] M mc last (((cStk bk), false) :: (cSB, false) :: C) lv a -> lm_type mc = LLT_Unknown ->
   nth_error T k = Some tI -> nth_error T (S k) = Some tAssign -> nth_error T (S (S k)) = Some tI ->
   nth_error T (S (S (S k))) = Some tSemi -> 5 <= f ->
   ST (RUN f C_structures s) (S (S (S k))) Ls [k; S k; S (S k)] M (mkLM (lm_parent mc) (lm_level mc) LLT_Assignment) last
      (((cStk bk), true) :: (cSB, false) :: C) lv a.
 Proof.
-  intros H Hty Hk Hk1 Hk2 Hk3 Hf. destruct f as [|[|[|[|[|f]]]]]; try lia.
+  intros Hsk H Hty Hk Hk1 Hk2 Hk3 Hf. destruct f as [|[|[|[|[|f]]]]]; try lia.
   assert (Hkn : k < n) by (apply nth_error_Some; congruence).
   assert (Hkn1 : S k < n) by (apply nth_error_Some; congruence).
   assert (Hkn2 : S (S k) < n) by (apply nth_error_Some; congruence).
@@ -566,7 +625,7 @@ Proof.
   (* round 1: identifier *)
   rewrite (run_S _ C_statement _ (ST_err _ _ _ _ _ _ _ _ _ _ H)).
   unfold arm_statement. rewrite (ST_cur_tt _ _ _ _ _ _ _ _ _ _ _ H Hk). cbn [tI].
-  rewrite (prelude_continue _ _ _ _ _ _ _ _ _ _ _ H Hk) by (discriminate || reflexivity). cbn [negb starm_of tI].
+  rewrite (prelude_continue _ _ _ _ _ _ _ _ _ _ _ Hsk H Hk) by (discriminate || reflexivity). cbn [negb starm_of tI].
   unfold st_label_cand, label_or_other. rewrite (ST_at_start _ _ _ _ _ _ _ _ _ _ H).
   rewrite (next_tt_ST _ _ _ _ _ _ _ _ _ _ _ H Hk1) by discriminate. cbn [tAssign o_colon andb].
   unfold t_other, t_loop.
@@ -574,7 +633,7 @@ Proof.
   (* round 2: `:=` sets the line type *)
   rewrite (run_S _ C_statement _ (ST_err _ _ _ _ _ _ _ _ _ _ H1)).
   unfold arm_statement. rewrite (ST_cur_tt _ _ _ _ _ _ _ _ _ _ _ H1 Hk1). cbn [tAssign].
-  rewrite (prelude_continue _ _ _ _ _ _ _ _ _ _ _ H1 Hk1) by (discriminate || reflexivity). cbn [negb starm_of tAssign].
+  rewrite (prelude_continue _ _ _ _ _ _ _ _ _ _ _ Hsk H1 Hk1) by (discriminate || reflexivity). cbn [negb starm_of tAssign].
   cbv delta [st_assign t_loop] beta zeta.
   pose proof (next_token_ST _ _ _ _ _ _ _ _ _ _ H1 Hkn1) as H2. cbn [app] in H2.
   rewrite (ST_cur_type _ _ _ _ _ _ _ _ _ _ H2), Hty. cbn [llt_is LogicalLineType_eqb LogicalLineType_idx Nat.eqb].
@@ -582,7 +641,7 @@ Proof.
   (* round 3: identifier, not at the start of the line *)
   rewrite (run_S _ C_statement _ (ST_err _ _ _ _ _ _ _ _ _ _ H3)).
   unfold arm_statement. rewrite (ST_cur_tt _ _ _ _ _ _ _ _ _ _ _ H3 Hk2). cbn [tI].
-  rewrite (prelude_continue _ _ _ _ _ _ _ _ _ _ _ H3 Hk2) by (discriminate || reflexivity). cbn [negb starm_of tI].
+  rewrite (prelude_continue _ _ _ _ _ _ _ _ _ _ _ Hsk H3 Hk2) by (discriminate || reflexivity). cbn [negb starm_of tI].
   unfold st_label_cand, label_or_other. rewrite (ST_at_start _ _ _ _ _ _ _ _ _ _ H3). cbn [andb].
   unfold t_other, t_loop.
   pose proof (next_token_ST _ _ _ _ _ _ _ _ _ _ H3 Hkn2) as H4. cbn [app] in H4.
@@ -597,6 +656,7 @@ Proof.
   pose proof (update_statuses_ST 1 _ _ _ _ _ _ _ _ _ _ H5) as H6. cbn [mark_ended] in H6. exact H6.
 Qed.
 Lemma iter_assign f s k Ls M mc last C lv a t' :
+  sk_of bk <> SK_Case ->
   ST s k Ls [] M mc last ((cSB, false) :: C) lv a -> first_parent C = par ->
   nth_error T k = Some tI -> nth_error T (S k) = Some tAssign -> nth_error T (S (S k)) = Some tI ->
   nth_error T (S (S (S k))) = Some tSemi -> nth_error T (S (S (S (S k)))) = Some t' -> t' <> tSemi ->
@@ -605,11 +665,11 @@ Lemma iter_assign f s k Ls M mc last C lv a t' :
      (S (S (S (S k)))) (Ls ++ [[k; S k; S (S k); S (S (S k))]]) [] (M ++ [mkLM par (lvl (1 + plain_sum C)) LLT_Assignment])
      (mkLM None (lvl (1 + plain_sum C)) LLT_Unknown) (length Ls) ((cSB, false) :: C) lv a.
 Proof.
-  intros H HC Hk Hk1 Hk2 Hk3 Hk4 Hne Hf. destruct f as [|f]; [lia|].
+  intros Hsk H HC Hk Hk1 Hk2 Hk3 Hk4 Hne Hf. destruct f as [|f]; [lia|].
   rewrite (with_ctx_structures f (cStk bk) s (ST_err _ _ _ _ _ _ _ _ _ _ H) eq_refl).
   pose proof (finish_empty_ST _ _ _ _ _ _ _ _ _ H) as H0.
   pose proof (push_ctx_ST (cStk bk) _ _ _ _ _ _ _ _ _ _ H0) as H1.
-  pose proof (structures_assign f _ _ _ _ _ _ _ _ _ H1 eq_refl Hk Hk1 Hk2 Hk3 ltac:(lia)) as H2.
+  pose proof (structures_assign f _ _ _ _ _ _ _ _ _ Hsk H1 eq_refl Hk Hk1 Hk2 Hk3 ltac:(lia)) as H2.
   pose proof (pop_ctx_ST _ _ _ _ _ _ _ _ _ _ _ H2) as H3.
   pose proof (finish_ST _ _ _ _ _ _ _ _ _ _ H3 ltac:(discriminate)) as H4.
   rewrite first_parent_blk, plain_sum_blk, HC in H4. cbn [lm_type] in H4.
@@ -673,7 +733,7 @@ Proof.
   intros IHr f s3 k2 L2 M2 mc2 last2 lv a li Hf Hli Hty H Ht.
   destruct (head_tok r) as (t' & H0 & N1 & E1 & E2).
   pose proof (toks_at_0 _ _ _ Ht H0) as Hk. rewrite (is_ending_SB _ _ _ _ _ _ _ _ _ _ _ H Hk).
-  destruct r as [|r'|r'|b' r'|b' r'|b' c' r'|b' c' r'|c' r'|c1' c2' r'|c' r'] eqn:Er.
+  destruct r as [|r'|r'|b' r'|b' r'|b' c' r'|b' c' r'|c' r'|c1' c2' r'|c' r'|a' r'|a' e' r'] eqn:Er.
   - rewrite (E1 eq_refl), is_term_term. cbn [orb render length pexpected map]. rewrite !app_nil_r, Nat.add_0_r. eauto.
   - destruct (E2 ltac:(discriminate)) as [F1 F2]. rewrite F1.
     assert (X : t' = tI) by (cbn in H0; congruence). subst t'.
@@ -702,6 +762,12 @@ Proof.
   - destruct (E2 ltac:(discriminate)) as [F1 F2]. rewrite F1.
     assert (X : t' = tWhile) by (cbn in H0; congruence). subst t'.
     rewrite (ST_cur_tt _ _ _ _ _ _ _ _ _ _ _ H Hk). cbn [tWhile orb]. exact (IHr _ _ _ _ _ _ _ _ _ _ Hf Hli H Ht).
+  - destruct (E2 ltac:(discriminate)) as [F1 F2]. rewrite F1.
+    assert (X : t' = tCase) by (cbn in H0; congruence). subst t'.
+    rewrite (ST_cur_tt _ _ _ _ _ _ _ _ _ _ _ H Hk). cbn [tCase orb]. exact (IHr _ _ _ _ _ _ _ _ _ _ Hf Hli H Ht).
+  - destruct (E2 ltac:(discriminate)) as [F1 F2]. rewrite F1.
+    assert (X : t' = tCase) by (cbn in H0; congruence). subst t'.
+    rewrite (ST_cur_tt _ _ _ _ _ _ _ _ _ _ _ H Hk). cbn [tCase orb]. exact (IHr _ _ _ _ _ _ _ _ _ _ Hf Hli H Ht).
 Qed.
 
 (* level bookkeeping under a statement context on top of a block *)
@@ -1064,16 +1130,14 @@ Proof. intros H E. unfold statement_prelude. rewrite (last_ctx_ST _ _ _ _ _ _ _ 
 
 Lemma statement_ident f s k L c M mc last x fl r lv a t1 :
   ST s k L c M mc last ((x, fl) :: r) lv a -> nth_error T k = Some tI -> nth_error T (S k) = Some t1 -> t1 <> RTT_Eof ->
-  ending_ctx pass s = None -> stmt_ctype x ->
+  o_colon (Some t1) = false -> ending_ctx pass s = None -> stmt_ctype x ->
   RUN (S f) C_statement s = RUN f C_statement (next_token pass s).
 Proof.
-  intros H Hk Hk1 Hne E Hx.
+  intros H Hk Hk1 Hne O E Hx.
   rewrite (run_S _ C_statement _ (ST_err _ _ _ _ _ _ _ _ _ _ H)).
   unfold arm_statement. rewrite (ST_cur_tt _ _ _ _ _ _ _ _ _ _ _ H Hk). cbn [tI].
   rewrite (prelude_none _ _ _ _ _ _ _ _ _ _ _ _ H E Hx). cbn [negb starm_of tI].
   unfold st_label_cand, label_or_other. rewrite (next_tt_ST _ _ _ _ _ _ _ _ _ _ _ H Hk1 Hne).
-  assert (O : o_colon (Some t1) = false).
-  { pose proof (plain_nth _ _ Hk1) as P. destruct t1 as [o| | | | | | | | | |]; try reflexivity. destruct o; try reflexivity; contradiction. }
   rewrite O, andb_false_r. reflexivity.
 Qed.
 Lemma statement_assign f s k L c M mc last x fl r lv a :
@@ -1138,19 +1202,24 @@ Proof.
 Qed.
 
 (* ---------------- the line section `Identifier then` / `Identifier do` of a header line *)
-Definition cUtp (th : bool) : pctx := ctx CT_Utility true (if th then P_then else P_kw_do) (ParserGrammar.L 0).
-Definition tHd (th : bool) : RawTokenType := if th then tThen else tDo.
+Inductive hk := HThen | HDo | HOf.
+Definition cUtp (th : hk) : pctx := ctx CT_Utility true (match th with HThen => P_then | HDo => P_kw_do | HOf => P_of end) (ParserGrammar.L 0).
+Definition tHd (th : hk) : RawTokenType := match th with HThen => tThen | HDo => tDo | HOf => tOf end.
+Definition is_hd (th : hk) (t : RawTokenType) : bool :=
+  match t, th with
+  | RTT_Keyword KK_Then, HThen | RTT_Keyword KK_Do, HDo | RTT_Keyword KK_Of, HOf => true
+  | _, _ => false
+  end.
 Lemma ending_Ut th s k L c M mc last r lv a t :
   ST s k L c M mc last ((cUtp th, false) :: r) lv a -> nth_error T k = Some t ->
-  ending_ctx pass s = match t with
-                      | RTT_Keyword KK_Then => if th then Some 1 else None
-                      | RTT_Keyword KK_Do => if th then None else Some 1
-                      | _ => None end.
+  ending_ctx pass s = if is_hd th t then Some 1 else None.
 Proof.
   intros H Ht. unfold ending_ctx. rewrite (ST_ctx _ _ _ _ _ _ _ _ _ _ H). cbn [ending_go cUtp ctx c_pred c_opaque].
   pose proof (ST_cur_tt _ _ _ _ _ _ _ _ _ _ _ H Ht) as Ct. pose proof (plain_nth _ _ Ht) as P.
-  destruct th; cbn [eval_pred]; unfold cur_kk; rewrite Ct;
-    (destruct t as [o| |k0|k0| | | | | | |]; try contradiction; try reflexivity; destruct k0; try contradiction; reflexivity).
+  destruct th; cbn [eval_pred]; unfold cur_kk; rewrite Ct.
+  all: destruct t as [o| |k0|k0| | | | | | |]; try contradiction; try reflexivity.
+  all: try (destruct o; try contradiction; reflexivity).
+  all: destruct k0; try contradiction; reflexivity.
 Qed.
 Lemma line_section_run th f s k L c M mc last r lv a :
   ST s k L c M mc last r lv a -> nth_error T k = Some tI -> nth_error T (S k) = Some (tHd th) -> 3 <= f ->
@@ -1161,7 +1230,7 @@ Proof.
   rewrite (run_S _ (C_line_section _) _ (ST_err _ _ _ _ _ _ _ _ _ _ H)). unfold arm_line_section.
   pose proof (push_ctx_ST (cUtp th) _ _ _ _ _ _ _ _ _ _ H) as H1.
   assert (E0 : ending_ctx pass (push_ctx pass (cUtp th) s) = None) by (rewrite (ending_Ut _ _ _ _ _ _ _ _ _ _ _ _ H1 Hk); reflexivity).
-  rewrite (statement_ident _ _ _ _ _ _ _ _ _ _ _ _ _ _ H1 Hk Hk1 ltac:(destruct th; discriminate) E0 (or_intror eq_refl)).
+  rewrite (statement_ident _ _ _ _ _ _ _ _ _ _ _ _ _ _ H1 Hk Hk1 ltac:(destruct th; discriminate) ltac:(destruct th; reflexivity) E0 (or_intror eq_refl)).
   pose proof (next_token_ST _ _ _ _ _ _ _ _ _ _ H1 Hkn) as H2.
   assert (E1 : ending_ctx pass (next_token pass (push_ctx pass (cUtp th) s)) = Some 1)
     by (rewrite (ending_Ut _ _ _ _ _ _ _ _ _ _ _ _ H2 Hk1); destruct th; reflexivity).
@@ -1205,7 +1274,7 @@ Proof.
   assert (Hkn : k < n) by (apply nth_error_Some; congruence).
   assert (E0 : ending_ctx pass s = None) by (rewrite (ending_Ch _ _ _ _ _ _ _ _ _ _ _ _ _ _ H Hk); destruct pe; reflexivity).
   rewrite (structures_ident _ _ _ _ _ _ _ _ _ _ _ H Hk E0).
-  rewrite (statement_ident _ _ _ _ _ _ _ _ _ _ _ _ _ _ H Hk Hk1 ltac:(destruct el; discriminate) E0 (or_introl eq_refl)).
+  rewrite (statement_ident _ _ _ _ _ _ _ _ _ _ _ _ _ _ H Hk Hk1 ltac:(destruct el; discriminate) ltac:(destruct el; reflexivity) E0 (or_introl eq_refl)).
   pose proof (next_token_ST _ _ _ _ _ _ _ _ _ _ H Hkn) as H1. cbn [app] in H1.
   assert (E1 : ending_ctx pass (next_token pass s) = Some (if el then 1 else 2)).
   { rewrite (ending_Ch _ _ _ _ _ _ _ _ _ _ _ _ _ _ H1 Hk1). destruct el; [rewrite (Hel eq_refl)|destruct pe]; reflexivity. }
@@ -1232,7 +1301,7 @@ Proof.
   assert (Hkn2 : S (S k) < n) by (apply nth_error_Some; congruence).
   assert (E0 : ending_ctx pass s = None) by (rewrite (ending_Ch _ _ _ _ _ _ _ _ _ _ _ _ _ _ H Hk); destruct pe; reflexivity).
   rewrite (structures_ident _ _ _ _ _ _ _ _ _ _ _ H Hk E0).
-  rewrite (statement_ident _ _ _ _ _ _ _ _ _ _ _ _ _ _ H Hk Hk1 ltac:(discriminate) E0 (or_introl eq_refl)).
+  rewrite (statement_ident _ _ _ _ _ _ _ _ _ _ _ _ _ _ H Hk Hk1 ltac:(discriminate) eq_refl E0 (or_introl eq_refl)).
   pose proof (next_token_ST _ _ _ _ _ _ _ _ _ _ H Hkn) as H1. cbn [app] in H1.
   assert (E1 : ending_ctx pass (next_token pass s) = None) by (rewrite (ending_Ch _ _ _ _ _ _ _ _ _ _ _ _ _ _ H1 Hk1); destruct pe; reflexivity).
   rewrite (statement_assign _ _ _ _ _ _ _ _ _ _ _ _ _ H1 Hk1 Hty E1 (or_introl eq_refl)).
@@ -1240,7 +1309,7 @@ Proof.
   pose proof (set_line_type_ST LLT_Assignment _ _ _ _ _ _ _ _ _ _ H2) as H3.
   match type of H3 with ST ?x _ _ _ _ _ _ _ _ _ => set (s3 := x) in * end.
   assert (E2 : ending_ctx pass s3 = None) by (rewrite (ending_Ch _ _ _ _ _ _ _ _ _ _ _ _ _ _ H3 Hk2); destruct pe; reflexivity).
-  rewrite (statement_ident _ _ _ _ _ _ _ _ _ _ _ _ _ _ H3 Hk2 Hk3 ltac:(destruct el; discriminate) E2 (or_introl eq_refl)).
+  rewrite (statement_ident _ _ _ _ _ _ _ _ _ _ _ _ _ _ H3 Hk2 Hk3 ltac:(destruct el; discriminate) ltac:(destruct el; reflexivity) E2 (or_introl eq_refl)).
   pose proof (next_token_ST _ _ _ _ _ _ _ _ _ _ H3 Hkn2) as H4. cbn [app] in H4.
   assert (E3 : ending_ctx pass (next_token pass s3) = Some (if el then 1 else 2)).
   { rewrite (ending_Ch _ _ _ _ _ _ _ _ _ _ _ _ _ _ H4 Hk3). destruct el; [rewrite (Hel eq_refl)|destruct pe]; reflexivity. }
@@ -1484,15 +1553,6 @@ Proof.
   - rewrite restv_p_emit. exact R4.
 Qed.
 
-Lemma portability_noop_G (s : pstate) : ps_toks pass s = T -> consolidate_portability_directives pass s = s.
-Proof.
-  intros Tk. unfold consolidate_portability_directives.
-  assert (X : existsb (fun t => match t with RTT_Op (OK_Equal _ | OK_Colon) => true | _ => false end) (cur_line_tts pass s) = false).
-  { unfold cur_line_tts. induction (cur_toks pass s) as [|i r IH]; [reflexivity|]. cbn [flat_map]. rewrite existsb_app, IH, orb_false_r.
-    unfold tt_at. rewrite Tk. destruct (nth_error T i) as [t|] eqn:E; [|reflexivity].
-    cbn [existsb]. rewrite (plain_not_eq_colon _ (plain_nth _ _ E)). reflexivity. }
-  rewrite X. reflexivity.
-Qed.
 (* finish_logical_line on a non-empty current line, any line-stack shape *)
 Lemma finish_GS s k Ls h cs M last cx lv a : GS s k Ls (h :: cs) M last cx lv a -> nth h Ls [] <> [] ->
   GS (finish_logical_line pass s) k (Ls ++ [[]]) (length Ls :: cs)
@@ -1623,6 +1683,116 @@ Proof.
   eapply ST_lists; [exact S1| |]; repeat (progress (cbn [app]; rewrite <- ?app_assoc)); reflexivity.
 Qed.
 
+(* ================================================================== *)
+(* more primitives on states of any line-stack shape (for the arm lines of a case statement: the current
+   line of an arm is followed by the child lines of the previous arm) *)
+Lemma push_ctx_GS c0 s k Ls cs M last cx lv a :
+  GS s k Ls cs M last cx lv a -> GS (push_ctx pass c0 s) k Ls cs M last ((c0, false) :: cx) lv a.
+Proof.
+  intros H. pose proof (GS_err _ _ _ _ _ _ _ _ _ H) as E. destruct H as (K & Mt & Ml & R).
+  unfold push_ctx, guard. rewrite E. unfold GS, kst, metas, restv in *. cbn. repeat split; try assumption.
+  injection R as R1 R2 R3 R4 R5 R6 R7. rewrite R1, R2, R3, R4, R5, R6, R7. reflexivity.
+Qed.
+Lemma pop_ctx_GS s k Ls cs M last x cx lv a :
+  GS s k Ls cs M last (x :: cx) lv a -> GS (pop_ctx pass s) k Ls cs M last cx lv a.
+Proof.
+  intros H. pose proof (GS_err _ _ _ _ _ _ _ _ _ H) as E. destruct H as (K & Mt & Ml & R).
+  unfold pop_ctx, guard. rewrite E. unfold GS, kst, metas, restv in *. cbn. repeat split; try assumption.
+  injection R as R1 R2 R3 R4 R5 R6 R7. rewrite R1, R2, R3, R4, R5, R6, R7. reflexivity.
+Qed.
+Lemma update_statuses_GS j s k Ls cs M last cx lv a :
+  GS s k Ls cs M last cx lv a -> GS (update_statuses pass j s) k Ls cs M last (mark_ended j cx) lv a.
+Proof.
+  intros H. pose proof (GS_err _ _ _ _ _ _ _ _ _ H) as E. destruct H as (K & Mt & Ml & R).
+  unfold update_statuses, guard. rewrite E. unfold GS, kst, metas, restv in *. cbn. repeat split; try assumption.
+  injection R as R1 R2 R3 R4 R5 R6 R7. rewrite R1, R2, R3, R4, R5, R6, R7. reflexivity.
+Qed.
+Lemma set_line_type_GS ty s k Ls h cs M last cx lv a :
+  GS s k Ls (h :: cs) M last cx lv a ->
+  GS (set_line_type pass ty s) k Ls (h :: cs) (upd_nth h (fun m => mkLM (lm_parent m) (lm_level m) ty) M) last cx lv a.
+Proof.
+  intros H. pose proof (GS_err _ _ _ _ _ _ _ _ _ H) as E. pose proof (GS_cur_ref _ _ _ _ _ _ _ _ _ _ H) as Rf.
+  destruct H as (K & Mt & Ml & R). unfold set_line_type. rewrite Rf. split; [|split; [|split]].
+  - rewrite kst_p_set_meta. exact K.
+  - rewrite (metas_p_set_meta pass _ _ _ E), Mt. reflexivity.
+  - rewrite upd_nth_len. exact Ml.
+  - rewrite restv_p_set_meta. exact R.
+Qed.
+Lemma GS_at_start s k Ls h cs M last cx lv a : GS s k Ls (h :: cs) M last cx lv a ->
+  at_start pass s = match nth h Ls [] with [] => true | _ :: _ => false end.
+Proof. intros H. unfold at_start, cur_toks. rewrite (GS_cur_ref _ _ _ _ _ _ _ _ _ _ H). destruct H as (K & _). rewrite K. reflexivity. Qed.
+Lemma GS_cur_type s k Ls h cs M last cx lv a : GS s k Ls (h :: cs) M last cx lv a -> cur_type pass s = lm_type (nth h M lm0).
+Proof. intros H. unfold cur_type. rewrite (GS_cur_ref _ _ _ _ _ _ _ _ _ _ H). destruct H as (_ & Mt & _). rewrite Mt. reflexivity. Qed.
+Lemma finish_empty_GS s k Ls h cs M last cx lv a : GS s k Ls (h :: cs) M last cx lv a -> nth h Ls [] = [] ->
+  GS (finish_logical_line pass s) k Ls (h :: cs) (upd_nth h (fun m => mkLM (lm_parent m) (lm_level m) LLT_Unknown) M) last cx lv a.
+Proof.
+  intros H Hn. unfold finish_logical_line, guard. rewrite (GS_err _ _ _ _ _ _ _ _ _ H), (GS_at_start _ _ _ _ _ _ _ _ _ _ H), Hn.
+  apply set_line_type_GS, H.
+Qed.
+Lemma next_tt_GS s k Ls cs M last cx lv a t :
+  GS s k Ls cs M last cx lv a -> nth_error T (S k) = Some t -> t <> RTT_Eof -> next_tt pass s = Some t.
+Proof.
+  intros H Ht Hne. assert (Hk : S k < n) by (apply nth_error_Some; congruence).
+  unfold next_tt, idx_next. rewrite (GS_pidx _ _ _ _ _ _ _ _ _ H).
+  assert (Sk : exists r, skipn (S k) pass = S k :: r).
+  { rewrite skipn_seq. cbn [Nat.add]. destruct (length T - S k) eqn:Z; [lia|]. cbn [seq]. eauto. }
+  destruct Sk as [r Sk].
+  rewrite Sk. cbn [find]. unfold filt_at, tt_at. rewrite (GS_toks _ _ _ _ _ _ _ _ _ H), Ht.
+  pose proof (plain_nth _ _ Ht) as P.
+  assert (F : tok_filter t = true) by (destruct t; try reflexivity; try contradiction; exfalso; apply Hne; reflexivity).
+  rewrite F. cbn [bind]. exact Ht.
+Qed.
+Lemma take_separators_noop_G lvl_ (s : pstate) : o_semicolon (cur_tt pass s) = false -> take_separators_on_last_line pass lvl_ s = s.
+Proof. intros H. unfold take_separators_on_last_line, guard. destruct (has_err pass s); [reflexivity|]. rewrite H. reflexivity. Qed.
+Lemma caret_noop_G (s : pstate) : ps_toks pass s = T -> consolidate_current_caret_to_type pass s = s.
+Proof.
+  intros Tk. unfold consolidate_current_caret_to_type, upd_cur. destruct (idx0 pass s) as [i|]; [|reflexivity].
+  unfold tt_at. rewrite Tk. destruct (nth_error T i) as [t|] eqn:E; [|reflexivity]. pose proof (plain_nth _ _ E) as P.
+  destruct t as [o| | | | | | | | | |]; try reflexivity. destruct o; try reflexivity; contradiction.
+Qed.
+
+(* the context-ending test and the steps of parse_statement / parse_structures from the raw facts *)
+Definition cur_is (s : pstate) (t : RawTokenType) : Prop := cur_tt pass s = match t with RTT_Eof => None | _ => Some t end.
+Lemma GS_cur_is s k Ls cs M last cx lv a t : GS s k Ls cs M last cx lv a -> nth_error T k = Some t -> cur_is s t.
+Proof. exact (GS_cur_tt s k Ls cs M last cx lv a t). Qed.
+Lemma blk_pred_eval_G b (s : pstate) t : cur_is s t -> plain t -> eval_pred pass (c_pred (cBlk b)) s = is_term b t.
+Proof.
+  intros Ct P. unfold cur_is in Ct.
+  destruct b; cbn [cBlk ctx c_pred eval_pred]; unfold o_kw_end; rewrite Ct;
+    (destruct t as [o| |k0|k0| | | | | | |]; try contradiction; try reflexivity; destruct k0; try contradiction; reflexivity).
+Qed.
+Lemma ending_G_St bk0 (s : pstate) fl C t : ps_ctx pass s = (cStk bk0, false) :: (cBlk bk0, fl) :: C -> fl = false -> cur_is s t -> plain t ->
+  ending_ctx pass s = match t with RTT_Op OK_Semicolon => Some 1 | _ => if is_term bk0 t then Some 2 else None end.
+Proof.
+  intros Hc -> Ct P. unfold ending_ctx. rewrite Hc. cbn [ending_go cStk ctx c_pred c_opaque eval_pred].
+  rewrite (blk_pred_eval_G bk0 s t Ct P), cBlk_opaque. unfold cur_is in Ct. rewrite Ct.
+  destruct t as [o| |k0|k0| | | | | | |]; try contradiction; try reflexivity.
+  all: try (destruct o; try contradiction; reflexivity).
+  all: try (destruct k0; try contradiction; cbn [o_semicolon]; destruct (is_term bk0 _); reflexivity).
+Qed.
+Lemma is_ending_G_blk bk0 (s : pstate) C t : ps_ctx pass s = (cBlk bk0, false) :: C -> cur_is s t -> plain t ->
+  is_ending pass s = is_term bk0 t.
+Proof.
+  intros Hc Ct P. unfold is_ending, ending_ctx. rewrite Hc. cbn [ending_go].
+  rewrite (blk_pred_eval_G bk0 s t Ct P), cBlk_opaque. destruct (is_term bk0 t); reflexivity.
+Qed.
+Lemma ending_G_ended (s : pstate) x r : ps_ctx pass s = (x, true) :: r -> ending_ctx pass s = Some 1.
+Proof. intros Hc. unfold ending_ctx. rewrite Hc. reflexivity. Qed.
+Lemma statement_stop_G f (s : pstate) t x fl r j : has_err pass s = false -> cur_is s t -> t <> RTT_Eof ->
+  ps_ctx pass s = (x, fl) :: r -> ending_ctx pass s = Some j -> RUN (S f) C_statement s = update_statuses pass j s.
+Proof.
+  intros E Ct Hne Hc En. rewrite (run_S _ C_statement _ E). unfold arm_statement. unfold cur_is in Ct. rewrite Ct.
+  assert (Pr : statement_prelude pass s = (update_statuses pass j s, false)).
+  { unfold statement_prelude, last_ctx. rewrite Hc, En. reflexivity. }
+  destruct t; try (rewrite Pr; reflexivity). contradiction Hne; reflexivity.
+Qed.
+Lemma structures_stop_G f (s : pstate) t j : has_err pass s = false -> cur_is s t -> t <> RTT_Eof ->
+  ending_ctx pass s = Some j -> RUN (S f) C_structures s = update_statuses pass j s.
+Proof.
+  intros E Ct Hne En. rewrite (run_S _ C_structures _ E). unfold arm_structures. unfold cur_is in Ct. rewrite Ct, En.
+  destruct t; try reflexivity. contradiction Hne; reflexivity.
+Qed.
+
 (* ---------------- if Identifier then body ; *)
 Lemma GS_last_is_ended s k Ls cs M last x fl r lv a : GS s k Ls cs M last ((x, fl) :: r) lv a -> last_is_ended pass s = Some fl.
 Proof. intros H. unfold last_is_ended. rewrite (GS_ctx _ _ _ _ _ _ _ _ _ H). reflexivity. Qed.
@@ -1655,9 +1825,9 @@ Proof.
   rewrite (ending_St_SB stk bk _ _ _ _ _ _ _ _ _ _ _ H1 Hk). cbn [tIf is_term sarm_of].
   unfold sa_if, s_loop.
   rewrite (run_S _ C_if_then _ (ST_err stk _ _ _ _ _ _ _ _ _ _ H1)). unfold arm_if_then.
-  change (ctx CT_Utility true P_then (ParserGrammar.L 0)) with (cUtp true).
+  change (ctx CT_Utility true P_then (ParserGrammar.L 0)) with (cUtp HThen).
   pose proof (next_token_ST stk _ _ _ _ _ _ _ _ _ _ H1 Hkn) as H2. cbn [app] in H2.
-  pose proof (line_section_run stk true (S f) _ _ _ _ _ _ _ _ _ _ H2 Hk1 Hk2 ltac:(lia)) as H3. cbn [app] in H3.
+  pose proof (line_section_run stk HThen (S f) _ _ _ _ _ _ _ _ _ _ H2 Hk1 Hk2 ltac:(lia)) as H3. cbn [app] in H3.
   match type of H3 with ST _ ?x _ _ _ _ _ _ _ _ _ => set (s3 := x) in * end.
   cbv zeta.
   assert (CK : cur_kk pass s3 = Some KK_Then) by (unfold cur_kk; rewrite (ST_cur_tt stk _ _ _ _ _ _ _ _ _ _ _ H3 Hk2); reflexivity).
@@ -1712,10 +1882,10 @@ Proof.
   rewrite (ending_St_SB stk bk _ _ _ _ _ _ _ _ _ _ _ H1 Hk). cbn [tWhile is_term sarm_of].
   unfold sa_do, s_loop.
   rewrite (run_S _ (C_do false) _ (ST_err stk _ _ _ _ _ _ _ _ _ _ H1)). unfold arm_do.
-  change (ctx CT_Utility true P_kw_do (ParserGrammar.L 0)) with (cUtp false).
+  change (ctx CT_Utility true P_kw_do (ParserGrammar.L 0)) with (cUtp HDo).
   pose proof (next_token_ST stk _ _ _ _ _ _ _ _ _ _ H1 Hkn) as H2. cbn [app] in H2.
   pose proof (set_line_type_ST stk LLT_Unknown _ _ _ _ _ _ _ _ _ _ H2) as H2'. cbn [lm_parent lm_level] in H2'.
-  pose proof (line_section_run stk false (S f) _ _ _ _ _ _ _ _ _ _ H2' Hk1 Hk2 ltac:(lia)) as H3. cbn [app] in H3.
+  pose proof (line_section_run stk HDo (S f) _ _ _ _ _ _ _ _ _ _ H2' Hk1 Hk2 ltac:(lia)) as H3. cbn [app] in H3.
   match type of H3 with ST _ ?x _ _ _ _ _ _ _ _ _ => set (s3 := x) in * end.
   cbv zeta.
   assert (CK : cur_kk pass s3 = Some KK_Do) by (unfold cur_kk; rewrite (ST_cur_tt stk _ _ _ _ _ _ _ _ _ _ _ H3 Hk2); reflexivity).
@@ -1771,9 +1941,9 @@ Proof.
   rewrite (ending_St_SB stk bk _ _ _ _ _ _ _ _ _ _ _ H1 Hk). cbn [tIf is_term sarm_of].
   unfold sa_if, s_loop.
   rewrite (run_S _ C_if_then _ (ST_err stk _ _ _ _ _ _ _ _ _ _ H1)). unfold arm_if_then.
-  change (ctx CT_Utility true P_then (ParserGrammar.L 0)) with (cUtp true).
+  change (ctx CT_Utility true P_then (ParserGrammar.L 0)) with (cUtp HThen).
   pose proof (next_token_ST stk _ _ _ _ _ _ _ _ _ _ H1 Hkn) as H2. cbn [app] in H2.
-  pose proof (line_section_run stk true (S f) _ _ _ _ _ _ _ _ _ _ H2 Hk1 Hk2 ltac:(lia)) as H3. cbn [app] in H3.
+  pose proof (line_section_run stk HThen (S f) _ _ _ _ _ _ _ _ _ _ H2 Hk1 Hk2 ltac:(lia)) as H3. cbn [app] in H3.
   match type of H3 with ST _ ?x _ _ _ _ _ _ _ _ _ => set (s3 := x) in * end.
   cbv zeta.
   assert (CK : cur_kk pass s3 = Some KK_Then) by (unfold cur_kk; rewrite (ST_cur_tt stk _ _ _ _ _ _ _ _ _ _ _ H3 Hk2); reflexivity).
@@ -1820,6 +1990,156 @@ Proof.
   eapply ST_lists; [exact CF| |]; repeat (progress (cbn [app]; rewrite <- ?app_assoc)); reflexivity.
 Qed.
 
+(* ---------------- one arm of a case statement: `Identifier : body ;` *)
+Lemma iter_arm stk par bkc bk c f s k L0 PL M0 mcur MP last C lv a t' :
+  sk_of bkc = SK_Case ->
+  (forall b, c = TBlock b ->
+     IHfor (length (L0 ++ [k; S k] :: PL) :: stk) (Some (length L0, S k)) KBegin b
+           (Xc bkc false (length L0, S k) ((cStk bk, false) :: (cBlk bk, false) :: C))) ->
+  GS s k (L0 ++ [] :: PL) (length L0 :: stk) (M0 ++ mcur :: MP) last ((cBlk bkc, false) :: (cStk bk, false) :: (cBlk bk, false) :: C) lv a ->
+  length M0 = length L0 -> first_parent C = par ->
+  nth_error T k = Some tI -> nth_error T (S k) = Some tColon -> toks_at (S (S k)) (render_body c ++ [tSemi]) ->
+  nth_error T (S (S (S k) + length (render_body c))) = Some t' -> t' <> tSemi -> t' <> RTT_Eof ->
+  30 + 10 * length (render_body c) <= f ->
+  let e := S (S k) + length (render_body c) in
+  let h := length (L0 ++ [k; S k] :: PL) in
+  let pb := pexpected_body (Some (length L0, S k)) (S (S k)) (S h) (Some e) c in
+  exists last',
+  GS (take_separators_on_last_line pass (CL_Level 0%Z) (finish_logical_line pass (RUN f (C_with_ctx (cStk bkc) A_structures) s)))
+     (S e) ((L0 ++ [k; S k] :: PL) ++ [] :: map ll_toks pb) (h :: stk)
+     ((M0 ++ mkLM par (lvl (1 + plain_sum C + 1)) LLT_CaseArm :: MP) ++ mkLM None (lvl (1 + plain_sum C + 1)) LLT_Unknown :: map meta_of pb)
+     last' ((cBlk bkc, false) :: (cStk bk, false) :: (cBlk bk, false) :: C) lv a.
+Proof.
+  intros Hskc IHc H Hm0 HC Hk Hk1 Hb He1 Hne HnE Hf e h pb.
+  set (C0 := (cStk bk, false) :: (cBlk bk, false) :: C) in *.
+  assert (Hkn : k < n) by (apply nth_error_Some; congruence).
+  assert (Hkn1 : S k < n) by (apply nth_error_Some; congruence).
+  assert (Pk : plain tI) by exact I. assert (Pc : plain tColon) by exact I.
+  assert (Pt' : plain t') by exact (plain_nth _ _ He1).
+  assert (He : nth_error T e = Some tSemi).
+  { specialize (Hb (length (render_body c)) tSemi). rewrite nth_error_app2, Nat.sub_diag in Hb by lia. exact (Hb eq_refl). }
+  destruct f as [|[|[|[|[|[|f]]]]]]; try lia.
+  rewrite (with_ctx_structures _ (cStk bkc) s (GS_err _ _ _ _ _ _ _ _ _ H) eq_refl).
+  (* the empty current line; the statement context of the arm *)
+  pose proof (finish_empty_GS _ _ _ _ _ _ _ _ _ _ H (nth_mid_eq _ _ L0 [] PL [] eq_refl eq_refl)) as G0.
+  rewrite (upd_nth_mid_eq _ _ _ M0 mcur MP eq_refl Hm0) in G0.
+  pose proof (push_ctx_GS (cStk bkc) _ _ _ _ _ _ _ _ _ G0) as G1.
+  match type of G1 with GS ?x _ _ _ _ _ _ _ _ => set (s1 := x) in * end.
+  assert (En1 : ending_ctx pass s1 = None).
+  { rewrite (ending_G_St bkc s1 false _ tI (GS_ctx _ _ _ _ _ _ _ _ _ G1) eq_refl (GS_cur_is _ _ _ _ _ _ _ _ _ _ G1 Hk) Pk). destruct bkc; reflexivity. }
+  rewrite (run_S _ C_structures _ (GS_err _ _ _ _ _ _ _ _ _ G1)).
+  unfold arm_structures. rewrite (GS_cur_tt _ _ _ _ _ _ _ _ _ _ G1 Hk), En1. cbn [tI sarm_of].
+  unfold sa_other, s_other, s_loop.
+  (* parse_statement: the label of the arm; the line becomes a CaseArm line *)
+  rewrite (run_S _ C_statement _ (GS_err _ _ _ _ _ _ _ _ _ G1)).
+  unfold arm_statement. rewrite (GS_cur_tt _ _ _ _ _ _ _ _ _ _ G1 Hk). cbn [tI].
+  assert (As1 : at_start pass s1 = true).
+  { rewrite (GS_at_start _ _ _ _ _ _ _ _ _ _ G1), (nth_mid_eq _ _ L0 [] PL [] eq_refl eq_refl). reflexivity. }
+  assert (Pr1 : statement_prelude pass s1 = (set_line_type pass LLT_CaseArm s1, true)).
+  { unfold statement_prelude, last_ctx. rewrite (GS_ctx _ _ _ _ _ _ _ _ _ G1), En1, As1. cbn [cStk ctx c_type]. rewrite Hskc. reflexivity. }
+  rewrite Pr1. cbn [negb starm_of tI].
+  pose proof (set_line_type_GS LLT_CaseArm _ _ _ _ _ _ _ _ _ _ G1) as G1'.
+  rewrite (upd_nth_mid_eq _ _ _ M0 _ MP eq_refl Hm0) in G1'. cbn [lm_parent lm_level] in G1'.
+  match type of G1' with GS ?x _ _ _ _ _ _ _ _ => set (s1' := x) in * end.
+  unfold st_label_cand, label_or_other.
+  assert (Lx : is_label_ctx_excluded pass s1' = true).
+  { unfold is_label_ctx_excluded, last_ctype, last_ctx. rewrite (GS_ctx _ _ _ _ _ _ _ _ _ G1'). cbn [option_map cStk ctx c_type]. rewrite Hskc. reflexivity. }
+  rewrite Lx, andb_false_r. unfold t_other, t_loop.
+  pose proof (next_token_GS _ _ _ _ _ _ _ _ _ _ G1' Hkn) as G2.
+  rewrite (upd_nth_mid_eq _ _ _ L0 [] PL eq_refl eq_refl) in G2. cbn [app] in G2.
+  match type of G2 with GS ?x _ _ _ _ _ _ _ _ => set (s2 := x) in * end.
+  (* the colon: the arm line is finished, then the body is a child line context *)
+  assert (En2 : ending_ctx pass s2 = None).
+  { rewrite (ending_G_St bkc s2 false _ tColon (GS_ctx _ _ _ _ _ _ _ _ _ G2) eq_refl (GS_cur_is _ _ _ _ _ _ _ _ _ _ G2 Hk1) Pc). destruct bkc; reflexivity. }
+  rewrite (run_S _ C_statement _ (GS_err _ _ _ _ _ _ _ _ _ G2)).
+  unfold arm_statement. rewrite (GS_cur_tt _ _ _ _ _ _ _ _ _ _ G2 Hk1). cbn [tColon].
+  assert (Pr2 : statement_prelude pass s2 = (s2, true)).
+  { unfold statement_prelude, last_ctx. rewrite (GS_ctx _ _ _ _ _ _ _ _ _ G2), En2.
+    rewrite (GS_at_start _ _ _ _ _ _ _ _ _ _ G2), (nth_mid_eq _ _ L0 [k] PL [] eq_refl eq_refl). reflexivity. }
+  rewrite Pr2. cbn [negb starm_of tColon]. unfold st_colon.
+  assert (LP : line_parent_of_current pass s2 = Some (length L0, S k)).
+  { unfold line_parent_of_current. rewrite (cur_index_G s2 (S k) (GS_pidx _ _ _ _ _ _ _ _ _ G2) Hkn1), (GS_cur_ref _ _ _ _ _ _ _ _ _ _ G2). reflexivity. }
+  rewrite LP.
+  pose proof (next_token_GS _ _ _ _ _ _ _ _ _ _ G2 Hkn1) as G3.
+  rewrite (upd_nth_mid_eq _ _ _ L0 [k] PL eq_refl eq_refl) in G3. cbn [app] in G3.
+  match type of G3 with GS ?x _ _ _ _ _ _ _ _ => set (s3 := x) in * end.
+  assert (Ct3 : cur_type pass s3 = LLT_CaseArm).
+  { rewrite (GS_cur_type _ _ _ _ _ _ _ _ _ _ G3), (nth_mid_eq _ _ M0 _ MP lm0 eq_refl Hm0). reflexivity. }
+  rewrite Ct3. cbn [llt_is LogicalLineType_eqb LogicalLineType_idx Nat.eqb].
+  pose proof (finish_GS _ _ _ _ _ _ _ _ _ _ G3) as G4.
+  rewrite (nth_mid_eq _ _ L0 [k; S k] PL [] eq_refl eq_refl) in G4. specialize (G4 ltac:(discriminate)).
+  rewrite (upd_nth_mid_eq _ _ _ M0 _ MP eq_refl Hm0) in G4. cbn [lm_type] in G4.
+  fold h in G4.
+  assert (FP : first_parent ((cStk bkc, false) :: (cBlk bkc, false) :: C0) = par).
+  { unfold C0. rewrite (first_parent_St_blk bkc), (first_parent_St_blk bk). exact HC. }
+  assert (PS : clamp_u16 (plain_sum ((cStk bkc, false) :: (cBlk bkc, false) :: C0)) = lvl (1 + plain_sum C + 1)).
+  { unfold C0. rewrite (plain_sum_St_blk bkc), (plain_sum_St_blk bk). unfold lvl. f_equal. lia. }
+  rewrite FP, PS in G4.
+  match type of G4 with GS ?x _ _ _ _ _ _ _ _ => set (s4 := x) in * end.
+  (* the body *)
+  rewrite (run_S _ (C_case_arm _) _ (GS_err _ _ _ _ _ _ _ _ _ G4)). unfold arm_case_arm.
+  change (ctx (CT_Statement SK_Normal) false P_never (CL_Parent (length L0, S k) 1%N)) with (cCh false (length L0, S k)).
+  assert (Ht0 : toks_at (S (S k)) (render_body c ++ [tFol false])) by exact Hb.
+  pose proof (child_run stk bkc false false (length L0, S k) c (S f) _ _ _ _ _ _ _ _ _ (S h) IHc G4
+                ltac:(rewrite app_length; cbn [length]; unfold h; lia) ltac:(discriminate) Ht0 ltac:(lia)) as G5.
+  fold e in G5. cbn [negb] in G5.
+  set (BI := body_init (Some (length L0, S k)) (S (S k)) (S h) c) in *.
+  match type of G5 with GS ?x _ _ _ _ _ _ _ _ => set (s5 := x) in * end.
+  pose proof (take_separators_GS (CL_Parent (length L0, S k) 1%N) _ _ _ _ _ _ _ _ _ _ t' G5 He He1 Hne) as G6.
+  rewrite (nth_mid_eq _ _ (((L0 ++ [k; S k] :: PL) ++ [[]]) ++ map ll_toks BI) (body_last (S (S k)) c) [[]] []) in G6
+    by (try (rewrite <- !app_assoc; reflexivity); unfold h; rewrite !app_length, map_length; cbn [length]; lia).
+  specialize (G6 (body_last_ne _ _)).
+  rewrite (upd_nth_mid_eq _ _ _ (((L0 ++ [k; S k] :: PL) ++ [[]]) ++ map ll_toks BI) (body_last (S (S k)) c) [[]]) in G6
+    by (try (rewrite <- !app_assoc; reflexivity); unfold h; rewrite !app_length, map_length; cbn [length]; lia).
+  match type of G6 with GS ?x _ _ _ _ _ _ _ _ => set (s6 := x) in * end.
+  pose proof (finish_empty_GS _ _ _ _ _ _ _ _ _ _ G6) as G7.
+  rewrite (nth_mid_eq _ _ (L0 ++ [k; S k] :: PL) [] (map ll_toks BI ++ [body_last (S (S k)) c ++ [e]; []]) []) in G7
+    by (try reflexivity; rewrite <- !app_assoc; reflexivity).
+  specialize (G7 eq_refl).
+  assert (Hlen : length ((M0 ++ mkLM par (lvl (1 + plain_sum C + 1)) LLT_CaseArm :: MP)) = h).
+  { destruct H as (_ & _ & Ml & _). unfold h. rewrite !app_length in *. cbn [length] in *. lia. }
+  rewrite (upd_nth_mid_eq _ h _ (M0 ++ mkLM par (lvl (1 + plain_sum C + 1)) LLT_CaseArm :: MP) (mkLM None (lvl (1 + plain_sum C + 1)) LLT_Unknown)
+             (map meta_of BI ++ [mkLM (Some (length L0, S k)) (lvl 1) (body_ty c); mkLM None (lvl 1) LLT_Unknown])) in G7
+    by (try exact Hlen; repeat (progress (cbn [app]; rewrite <- ?app_assoc)); reflexivity).
+  cbn [lm_parent lm_level] in G7.
+  match type of G7 with GS ?x _ _ _ _ _ _ _ _ => set (s7 := x) in * end.
+  rewrite (caret_noop_G s7 (GS_toks _ _ _ _ _ _ _ _ _ G7)). unfold t_loop.
+  (* back in parse_statement and parse_structures: the statement context has ended *)
+  rewrite (statement_stop_G _ s7 t' _ _ _ 1 (GS_err _ _ _ _ _ _ _ _ _ G7) (GS_cur_is _ _ _ _ _ _ _ _ _ _ G7 He1) HnE
+             (GS_ctx _ _ _ _ _ _ _ _ _ G7) (ending_G_ended s7 _ _ (GS_ctx _ _ _ _ _ _ _ _ _ G7))).
+  pose proof (update_statuses_GS 1 _ _ _ _ _ _ _ _ _ G7) as G8. cbn [mark_ended] in G8.
+  match type of G8 with GS ?x _ _ _ _ _ _ _ _ => set (s8 := x) in * end.
+  rewrite (structures_stop_G _ s8 t' 1 (GS_err _ _ _ _ _ _ _ _ _ G8) (GS_cur_is _ _ _ _ _ _ _ _ _ _ G8 He1) HnE
+             (ending_G_ended s8 _ _ (GS_ctx _ _ _ _ _ _ _ _ _ G8))).
+  pose proof (update_statuses_GS 1 _ _ _ _ _ _ _ _ _ G8) as G9. cbn [mark_ended] in G9.
+  pose proof (pop_ctx_GS _ _ _ _ _ _ _ _ _ _ G9) as G10.
+  pose proof (finish_empty_GS _ _ _ _ _ _ _ _ _ _ G10) as G11.
+  rewrite (nth_mid_eq _ _ (L0 ++ [k; S k] :: PL) [] (map ll_toks BI ++ [body_last (S (S k)) c ++ [e]; []]) []) in G11
+    by (try reflexivity; rewrite <- !app_assoc; reflexivity).
+  specialize (G11 eq_refl).
+  rewrite (upd_nth_mid_eq _ h _ (M0 ++ mkLM par (lvl (1 + plain_sum C + 1)) LLT_CaseArm :: MP) (mkLM None (lvl (1 + plain_sum C + 1)) LLT_Unknown)
+             (map meta_of BI ++ [mkLM (Some (length L0, S k)) (lvl 1) (body_ty c); mkLM None (lvl 1) LLT_Unknown])) in G11
+    by (try exact Hlen; repeat (progress (cbn [app]; rewrite <- ?app_assoc)); reflexivity).
+  cbn [lm_parent lm_level] in G11.
+  match type of G11 with GS ?x _ _ _ _ _ _ _ _ => set (s11 := x) in * end.
+  rewrite (take_separators_noop_G _ s11).
+  2: { rewrite (GS_cur_tt _ _ _ _ _ _ _ _ _ _ G11 He1). destruct t' as [o| | | | | | | | | |]; try reflexivity. destruct o; try reflexivity. exfalso. apply Hne. reflexivity. }
+  eexists. eapply GS_lists; [exact G11| |].
+  - unfold pb. rewrite pexpected_body_eq. fold BI. rewrite map_app. cbn [map ll_toks].
+    repeat (progress (cbn [app]; rewrite <- ?app_assoc)). reflexivity.
+  - unfold pb. rewrite pexpected_body_eq. fold BI.
+    rewrite map_app. cbn [map meta_of ll_parent ll_level ll_type].
+    repeat (progress (cbn [app]; rewrite <- ?app_assoc)). reflexivity.
+Qed.
+
+(* no type declaration context below (parse_structures asks for it at `case`) *)
+Definition notd (C : list (pctx * bool)) : Prop :=
+  existsb (fun c => match c_type (fst c) with CT_TypeDeclaration => true | _ => false end) C = false.
+Lemma notd_St_blk bk f1 f2 C : notd C -> notd ((cStk bk, f1) :: (cBlk bk, f2) :: C).
+Proof. unfold notd. intros H. destruct bk; cbn; exact H. Qed.
+Lemma notd_Xc bk pe p C : notd C -> notd (Xc bk pe p C).
+Proof. unfold notd, Xc. intros H. destruct bk; cbn; exact H. Qed.
+
 Lemma head_tok_ne_eof bk r t' : nth_error (render r ++ [tTerm bk]) 0 = Some t' -> t' <> RTT_Eof.
 Proof. destruct r; cbn; intros [= <-]; try discriminate. destruct bk; discriminate. Qed.
 
@@ -1827,13 +2147,367 @@ Ltac fix_li r H4 :=
   match type of H4 with context [pexpected _ _ _ ?li1 r] =>
     match goal with |- context [pexpected _ _ _ ?li2 r] => replace li1 with li2 in H4 by len_tac end end.
 
-(* ---------------- the statement-list loop on any statement list of the fragment *)
-Theorem stmts_run : forall ss stk par bk C, first_parent C = par -> IHfor stk par bk ss C.
+(* ---------------- the arms of a case statement: the statement-list loop of the case block *)
+Definition need_arms (a : arms) : nat := 10 + 10 * length (render_arms a).
+Definition Qbody (c : tbody) : Prop :=
+  forall b, c = TBlock b -> forall stk par bk C, sk_of bk <> SK_Case -> notd C -> first_parent C = par -> IHfor stk par bk b C.
+Definition Parms (a : arms) : Prop :=
+  forall stk par bkc bk C f s k L0 PL M0 mcur MP last lv a0 pend,
+  sk_of bkc = SK_Case -> notd C -> first_parent C = par ->
+  GS s k (L0 ++ [] :: PL) (length L0 :: stk) (M0 ++ mcur :: MP) last ((cBlk bkc, false) :: (cStk bk, false) :: (cBlk bk, false) :: C) lv a0 ->
+  length M0 = length L0 -> PL = map ll_toks (pend (length L0 + 1)) -> MP = map meta_of (pend (length L0 + 1)) ->
+  toks_at k (render_arms a ++ [tTerm bkc]) -> need_arms a <= f ->
+  let d := (1 + plain_sum C)%Z in
+  let j := arms_li k (length L0) a pend in
+  exists mc' last' fl, lm_type mc' = LLT_Unknown /\
+    GS (RUN f (slc bkc) s) (k + length (render_arms a))
+       (L0 ++ map ll_toks (arms_pre par d k (length L0) a pend) ++ [] :: map ll_toks (arms_pend k (length L0) a pend (j + 1)))
+       (j :: stk)
+       (M0 ++ map meta_of (arms_pre par d k (length L0) a pend) ++ mc' :: map meta_of (arms_pend k (length L0) a pend (j + 1)))
+       last' ((cBlk bkc, fl) :: (cStk bk, false) :: (cBlk bk, false) :: C) lv a0.
+Lemma GS_cs s k Ls cs cs' M last cx lv a : GS s k Ls cs M last cx lv a -> cs = cs' -> GS s k Ls cs' M last cx lv a.
+Proof. intros H <-. exact H. Qed.
+
+Lemma arms_nil_run : Parms ANil.
 Proof.
-  apply (stmts_mut (fun ss => forall stk par bk C, first_parent C = par -> IHfor stk par bk ss C)
-                   (fun c => forall b, c = TBlock b -> forall stk par bk C, first_parent C = par -> IHfor stk par bk b C)).
+  intros stk par bkc bk C f s k L0 PL M0 mcur MP last lv a0 pend Hskc Hnd HC H Hm0 HPL HMP Ht Hf d j.
+  unfold need_arms in Hf. cbn [render_arms length app] in *. subst j. cbn [arms_li arms_pre arms_pend map app].
+  pose proof (toks_at_0 _ _ _ Ht eq_refl) as Hk.
+  assert (Pt : plain (tTerm bkc)) by exact (plain_nth _ _ Hk).
+  assert (HnE : tTerm bkc <> RTT_Eof) by (destruct bkc; discriminate).
+  destruct f as [|[|[|f]]]; try lia.
+  unfold slc. rewrite (stmt_list_unfold _ _ _ _ _ (GS_err _ _ _ _ _ _ _ _ _ H)). cbv zeta.
+  change (ctx (CT_Statement (sk_of bkc)) false P_semicolon (ParserGrammar.L 0)) with (cStk bkc).
+  rewrite (with_ctx_structures _ (cStk bkc) s (GS_err _ _ _ _ _ _ _ _ _ H) eq_refl).
+  pose proof (finish_empty_GS _ _ _ _ _ _ _ _ _ _ H (nth_mid_eq _ _ L0 [] PL [] eq_refl eq_refl)) as G0.
+  rewrite (upd_nth_mid_eq _ _ _ M0 mcur MP eq_refl Hm0) in G0.
+  pose proof (push_ctx_GS (cStk bkc) _ _ _ _ _ _ _ _ _ G0) as G1.
+  match type of G1 with GS ?x _ _ _ _ _ _ _ _ => set (s1 := x) in * end.
+  assert (En1 : ending_ctx pass s1 = Some 2).
+  { rewrite (ending_G_St bkc s1 false _ (tTerm bkc) (GS_ctx _ _ _ _ _ _ _ _ _ G1) eq_refl (GS_cur_is _ _ _ _ _ _ _ _ _ _ G1 Hk) Pt). destruct bkc; reflexivity. }
+  rewrite (structures_stop_G _ s1 (tTerm bkc) 2 (GS_err _ _ _ _ _ _ _ _ _ G1) (GS_cur_is _ _ _ _ _ _ _ _ _ _ G1 Hk) HnE En1).
+  pose proof (update_statuses_GS 2 _ _ _ _ _ _ _ _ _ G1) as G2. cbn [mark_ended] in G2.
+  pose proof (pop_ctx_GS _ _ _ _ _ _ _ _ _ _ G2) as G3.
+  pose proof (finish_empty_GS _ _ _ _ _ _ _ _ _ _ G3 (nth_mid_eq _ _ L0 [] PL [] eq_refl eq_refl)) as G4.
+  rewrite (upd_nth_mid_eq _ _ _ M0 _ MP eq_refl Hm0) in G4. cbn [lm_parent lm_level] in G4.
+  match type of G4 with GS ?x _ _ _ _ _ _ _ _ => set (s4 := x) in * end.
+  rewrite (take_separators_noop_G _ s4) by (rewrite (GS_cur_tt _ _ _ _ _ _ _ _ _ _ G4 Hk); destruct bkc; reflexivity).
+  assert (IE : is_ending pass s4 = true) by (unfold is_ending, ending_ctx; rewrite (GS_ctx _ _ _ _ _ _ _ _ _ G4); reflexivity).
+  rewrite IE. cbn [orb]. rewrite Nat.add_0_r.
+  eexists _, _, _. split.
+  2: { eapply GS_lists; [exact G4| rewrite HPL; reflexivity | rewrite HMP; reflexivity]. }
+  reflexivity.
+Qed.
+
+Lemma arms_cons_run c a' : Qbody c -> Parms a' -> Parms (ACons c a').
+Proof.
+  intros Qc IHa stk par bkc bk C f s k L0 PL M0 mcur MP last lv a0 pend Hskc Hnd HC H Hm0 HPL HMP Ht Hf d j.
+  unfold need_arms in Hf. cbn [render_arms length] in Hf. rewrite !app_length in Hf. cbn [length] in Hf.
+  cbn [render_arms] in Ht.
+  assert (Eq : (tI :: tColon :: render_body c ++ tSemi :: render_arms a') ++ [tTerm bkc]
+               = [tI; tColon] ++ (render_body c ++ [tSemi]) ++ (render_arms a' ++ [tTerm bkc])).
+  { cbn [app]. rewrite <- !app_assoc. reflexivity. }
+  rewrite Eq in Ht.
+  pose proof (Ht 0 _ eq_refl) as Hk. rewrite Nat.add_0_r in Hk.
+  pose proof (Ht 1 _ eq_refl) as Hk1.
+  assert (Ht2 : toks_at (k + 2) ((render_body c ++ [tSemi]) ++ render_arms a' ++ [tTerm bkc])).
+  { apply (toks_at_shift k 2 [tI; tColon]); [exact Ht|reflexivity]. }
+  assert (Hb : toks_at (k + 2) (render_body c ++ [tSemi])) by (eapply toks_at_prefix; exact Ht2).
+  set (e := k + 2 + length (render_body c)).
+  assert (Htr : toks_at (e + 1) (render_arms a' ++ [tTerm bkc])).
+  { replace (e + 1) with (k + 2 + length (render_body c ++ [tSemi])) by (rewrite app_length; cbn [length]; unfold e; lia).
+    apply (toks_at_shift _ _ (render_body c ++ [tSemi])); [exact Ht2|reflexivity]. }
+  assert (Ht' : exists t', nth_error (render_arms a' ++ [tTerm bkc]) 0 = Some t' /\ t' <> tSemi /\ t' <> RTT_Eof
+                /\ ((a' = ANil /\ t' = tTerm bkc) \/ (a' <> ANil /\ t' = tI))).
+  { destruct a' as [|c2 a2]; cbn; eexists; (split; [reflexivity|]); repeat split; try discriminate; try (destruct bkc; discriminate).
+    - left. split; reflexivity.
+    - right. split; [discriminate|reflexivity]. }
+  destruct Ht' as (t' & H0 & N1 & NE & Hcase).
+  pose proof (toks_at_0 _ _ _ Htr H0) as He1.
+  destruct f as [|f]; [lia|].
+  unfold slc. rewrite (stmt_list_unfold _ _ _ _ _ (GS_err _ _ _ _ _ _ _ _ _ H)). cbv zeta.
+  change (ctx (CT_Statement (sk_of bkc)) false P_semicolon (ParserGrammar.L 0)) with (cStk bkc).
+  change (ParserGrammar.L 0) with (CL_Level 0%Z).
+  assert (Hnd0 : notd ((cStk bk, false) :: (cBlk bk, false) :: C)) by (apply notd_St_blk, Hnd).
+  replace (k + 1) with (S k) in Hk1 by lia. replace (k + 2) with (S (S k)) in Hb by lia.
+  replace (e + 1) with (S (S (S k) + length (render_body c))) in He1 by (unfold e; lia).
+  destruct (iter_arm stk par bkc bk c f _ _ _ _ _ _ _ _ _ _ _ t' Hskc
+              (fun b Hb0 => Qc b Hb0 _ _ KBegin _ ltac:(discriminate) (notd_Xc _ _ _ _ Hnd0) eq_refl)
+              H Hm0 HC Hk Hk1 Hb He1 N1 NE ltac:(lia)) as (last1 & G).
+  cbv zeta in G.
+  (* the forms of Fragment.arms_lines *)
+  replace (S (S (S k) + length (render_body c))) with (e + 1) in G by (unfold e; lia).
+  replace (S (S k) + length (render_body c)) with e in G by (unfold e; lia).
+  replace (S (S k)) with (k + 2) in G by lia. replace (S k) with (k + 1) in G by lia.
+  replace (S (length (L0 ++ [k; k + 1] :: PL))) with (length (L0 ++ [k; k + 1] :: PL) + 1) in G by lia.
+  set (h := length (L0 ++ [k; k + 1] :: PL)) in *.
+  assert (Hh : h = length L0 + 1 + length (pend (length L0 + 1))).
+  { unfold h. rewrite HPL, app_length. cbn [length]. rewrite map_length. lia. }
+  match type of G with GS ?x _ _ _ _ _ _ _ _ => set (s3 := x) in * end.
+  assert (IE : is_ending pass s3 = is_term bkc t').
+  { apply (is_ending_G_blk bkc s3 _ t' (GS_ctx _ _ _ _ _ _ _ _ _ G)); [|exact (plain_nth _ _ He1)].
+    apply (GS_cur_is _ _ _ _ _ _ _ _ _ _ G). replace (e + 1) with (S (S (S k) + length (render_body c))) by (unfold e; lia). exact He1. }
+  rewrite IE.
+  subst j d. cbn [arms_li arms_pre arms_pend]. cbv zeta. fold e. rewrite <- Hh.
+  destruct Hcase as [[Ea Et]|[Ea Et]].
+  - (* the last arm *)
+    subst a' t'. rewrite is_term_term. cbn [orb arms_li arms_pre arms_pend render_arms].
+    replace (k + length (tI :: tColon :: render_body c ++ [tSemi])) with (e + 1) by (cbn [length]; rewrite app_length; cbn [length]; unfold e; lia).
+    eexists _, _, _. split; [|eapply GS_lists; [exact G| |]]; cycle 1.
+    + rewrite HPL. cbn [map ll_toks]. rewrite map_app. cbn [map]. repeat (progress (cbn [app]; rewrite <- ?app_assoc)). reflexivity.
+    + rewrite HMP. cbn [map meta_of ll_parent ll_level ll_type]. rewrite map_app. cbn [map].
+      replace (1 + plain_sum C + 1)%Z with (1 + plain_sum C + 1)%Z by reflexivity.
+      repeat (progress (cbn [app]; rewrite <- ?app_assoc)). reflexivity.
+    + reflexivity.
+  - (* another arm follows *)
+    subst t'. assert (X : is_term bkc tI = false) by (destruct bkc; reflexivity). rewrite X. clear X.
+    assert (Ct : cur_tt pass s3 = Some tI).
+    { refine (GS_cur_tt _ _ _ _ _ _ _ _ _ tI G _). replace (e + 1) with (S (S (S k) + length (render_body c))) by (unfold e; lia). exact He1. }
+    rewrite Ct. cbn [orb].
+    set (pend' := fun i : nat => pexpected_body (Some (length L0, k + 1)) (k + 2) i (Some e) c).
+    assert (Hlen : length (M0 ++ mkLM par (lvl (1 + plain_sum C + 1)) LLT_CaseArm :: MP) = length (L0 ++ [k; k + 1] :: PL)).
+    { rewrite !app_length. cbn [length]. rewrite HPL, HMP, !map_length. lia. }
+    destruct (IHa stk par bkc bk C f s3 (e + 1) (L0 ++ [k; k + 1] :: PL) (map ll_toks (pend' (h + 1)))
+                (M0 ++ mkLM par (lvl (1 + plain_sum C + 1)) LLT_CaseArm :: MP) _ (map meta_of (pend' (h + 1))) _ _ _ pend'
+                Hskc Hnd HC G Hlen eq_refl eq_refl Htr ltac:(unfold need_arms; lia))
+      as (mc' & last' & fl & Ty & G').
+    cbv zeta in G'. fold h in G'.
+    exists mc', last', fl. split; [exact Ty|].
+    cbn [render_arms].
+    replace (k + length (tI :: tColon :: render_body c ++ tSemi :: render_arms a')) with (e + 1 + length (render_arms a'))
+      by (cbn [length]; rewrite app_length; cbn [length]; unfold e; lia).
+    eapply GS_lists; [exact G'| |].
+    + rewrite HPL. cbn [map ll_toks]. rewrite !map_app. repeat (progress (cbn [app]; rewrite <- ?app_assoc)). reflexivity.
+    + rewrite HMP. cbn [map meta_of ll_parent ll_level ll_type]. rewrite !map_app. repeat (progress (cbn [app]; rewrite <- ?app_assoc)). reflexivity.
+Qed.
+(* ---------------- case Identifier of arms end ; *)
+Lemma in_type_decl_false stk bk s k L c M mc last C lv a :
+  ST stk s k L c M mc last ((cStk bk, false) :: (cBlk bk, false) :: C) lv a -> notd C -> is_in_type_decl pass s = false.
+Proof. intros H Hnd. unfold is_in_type_decl, any_ctype. rewrite (ST_ctx stk _ _ _ _ _ _ _ _ _ _ H). exact (notd_St_blk bk false false C Hnd). Qed.
+
+Lemma iter_case stk par bk a f s k Ls M mc last C lv a0 t' :
+  Parms a -> notd C ->
+  ST stk s k Ls [] M mc last ((cBlk bk, false) :: C) lv a0 -> first_parent C = par ->
+  nth_error T k = Some tCase -> nth_error T (S k) = Some tI -> nth_error T (S (S k)) = Some tOf ->
+  toks_at (S (S (S k))) (render_arms a ++ [tEnd]) ->
+  nth_error T (S (S (S (S k)) + length (render_arms a))) = Some tSemi ->
+  nth_error T (S (S (S (S (S k)) + length (render_arms a)))) = Some t' -> t' <> tSemi ->
+  20 + need_arms a <= f ->
+  let d := (1 + plain_sum C)%Z in
+  let ke := S (S (S k)) + length (render_arms a) in
+  let pre := arms_pre par d (S (S (S k))) (length Ls + 1) a (fun _ => []) in
+  let j := arms_li (S (S (S k))) (length Ls + 1) a (fun _ => []) in
+  let pl := arms_pend (S (S (S k))) (length Ls + 1) a (fun _ => []) (j + 1) in
+  exists mc3 last3, lm_type mc3 = LLT_Unknown /\
+  ST stk (take_separators_on_last_line pass (CL_Level 0%Z) (finish_logical_line pass (RUN f (C_with_ctx (cStk bk) A_structures) s)))
+     (S (S ke)) (Ls ++ [k; S k; S (S k)] :: map ll_toks pre ++ [ke; S ke] :: map ll_toks pl) []
+     (M ++ mkLM par (lvl d) LLT_CaseHeader :: map meta_of pre ++ mkLM par (lvl d) LLT_Unknown :: map meta_of pl)
+     mc3 last3 ((cBlk bk, false) :: C) lv a0.
+Proof.
+  intros IHa Hnd H HC Hk Hk1 Hk2 Hb Hse Hse1 Hne Hf d ke pre j pl.
+  assert (Hkn : k < n) by (apply nth_error_Some; congruence).
+  assert (Hkn2 : S (S k) < n) by (apply nth_error_Some; congruence).
+  assert (Ml : length M = length Ls) by (destruct H as (_ & _ & Ml & _); exact Ml).
+  assert (Hke : nth_error T ke = Some tEnd).
+  { specialize (Hb (length (render_arms a)) tEnd). rewrite nth_error_app2, Nat.sub_diag in Hb by lia. exact (Hb eq_refl). }
+  assert (Hken : ke < n) by (apply nth_error_Some; congruence).
+  destruct f as [|[|[|[|[|[|f]]]]]]; try lia.
+  rewrite (with_ctx_structures _ (cStk bk) s (ST_err stk _ _ _ _ _ _ _ _ _ _ H) eq_refl).
+  pose proof (finish_empty_ST stk _ _ _ _ _ _ _ _ _ H) as H0.
+  pose proof (push_ctx_ST stk (cStk bk) _ _ _ _ _ _ _ _ _ _ H0) as H1.
+  rewrite (run_S _ C_structures _ (ST_err stk _ _ _ _ _ _ _ _ _ _ H1)).
+  unfold arm_structures. rewrite (ST_cur_tt stk _ _ _ _ _ _ _ _ _ _ _ H1 Hk). cbn [tCase].
+  rewrite (ending_St_SB stk bk _ _ _ _ _ _ _ _ _ _ _ H1 Hk). cbn [tCase is_term sarm_of].
+  unfold sa_case. rewrite (in_type_decl_false stk bk _ _ _ _ _ _ _ _ _ _ H1 Hnd). unfold s_loop.
+  rewrite (run_S _ C_case_statement _ (ST_err stk _ _ _ _ _ _ _ _ _ _ H1)). unfold arm_case_statement.
+  change (ctx CT_Utility true P_of (ParserGrammar.L 0)) with (cUtp HOf).
+  pose proof (next_token_ST stk _ _ _ _ _ _ _ _ _ _ H1 Hkn) as H2. cbn [app] in H2.
+  pose proof (set_line_type_ST stk LLT_CaseHeader _ _ _ _ _ _ _ _ _ _ H2) as H2'. cbn [lm_parent lm_level] in H2'.
+  pose proof (line_section_run stk HOf (S (S (S f))) _ _ _ _ _ _ _ _ _ _ H2' Hk1 Hk2 ltac:(lia)) as H3. cbn [app] in H3.
+  match type of H3 with ST _ ?x _ _ _ _ _ _ _ _ _ => set (s3 := x) in * end.
+  cbv zeta. rewrite (ST_cur_tt stk _ _ _ _ _ _ _ _ _ _ _ H3 Hk2). cbn [tOf o_kw_of].
+  pose proof (next_token_ST stk _ _ _ _ _ _ _ _ _ _ H3 Hkn2) as H4. cbn [app] in H4.
+  pose proof (finish_ST stk _ _ _ _ _ _ _ _ _ _ H4 ltac:(discriminate)) as H5. cbn [lm_type] in H5.
+  rewrite (first_parent_St_blk bk), (plain_sum_St_blk bk), HC in H5.
+  replace (clamp_u16 (0 + (1 + plain_sum C))) with (lvl d) in H5 by (unfold lvl, d; f_equal; lia).
+  match type of H5 with ST _ ?x _ _ _ _ _ _ _ _ _ => set (s5 := x) in * end.
+  (* the case block and its arms *)
+  cbv delta [stmt_block] beta.
+  change (ctx (CT_Statement SK_Case) true P_else_end (ParserGrammar.L 1)) with (cBlk KCase).
+  rewrite (run_S _ (C_stmt_block (cBlk KCase) SK_Case) _ (ST_err stk _ _ _ _ _ _ _ _ _ _ H5)). unfold arm_stmt_block.
+  rewrite (with_ctx_stmt_list _ (cBlk KCase) _ _ (ST_err stk _ _ _ _ _ _ _ _ _ _ H5) eq_refl).
+  change (C_stmt_list (CT_Statement SK_Case) false P_semicolon) with (slc KCase).
+  pose proof (finish_empty_ST stk _ _ _ _ _ _ _ _ _ H5) as H6. cbn [lm_parent lm_level] in H6.
+  pose proof (push_ctx_ST stk (cBlk KCase) _ _ _ _ _ _ _ _ _ _ H6) as H7.
+  pose proof (ST_GS stk _ _ _ _ _ _ _ _ _ _ H7) as G7.
+  assert (Hl0 : length (M ++ [mkLM par (lvl d) LLT_CaseHeader]) = length (Ls ++ [[k; S k; S (S k)]])) by (rewrite !app_length, Ml; reflexivity).
+  destruct (IHa stk par KCase bk C (S f) _ (S (S (S k))) (Ls ++ [[k; S k; S (S k)]]) [] (M ++ [mkLM par (lvl d) LLT_CaseHeader]) _ [] _ _ _
+              (fun _ => []) eq_refl Hnd HC G7 Hl0 eq_refl eq_refl Hb ltac:(lia)) as (mc' & last' & fl & Ty & G8).
+  cbv zeta in G8. fold ke in G8.
+  replace (length (Ls ++ [[k; S k; S (S k)]])) with (length Ls + 1) in G8 by (rewrite app_length; reflexivity).
+  fold d in G8. fold pre in G8. fold j in G8. fold pl in G8.
+  pose proof (pop_ctx_GS _ _ _ _ _ _ _ _ _ _ G8) as G9.
+  match type of G9 with GS ?x _ _ _ _ _ _ _ _ => set (s9 := x) in * end.
+  rewrite (GS_cur_tt _ _ _ _ _ _ _ _ _ _ G9 Hke). cbn [tEnd o_kw_else].
+  rewrite (GS_cur_tt _ _ _ _ _ _ _ _ _ _ G9 Hke). cbn [tEnd o_kw_end].
+  (* `end` joins the line that is current after the last arm; the `;` too *)
+  assert (Hj : j = length (Ls ++ [[k; S k; S (S k)]]) + length pre).
+  { unfold j, pre. rewrite (arms_li_eq a par d), app_length. reflexivity. }
+  pose proof (next_token_GS _ _ _ _ _ _ _ _ _ _ G9 Hken) as G10.
+  rewrite (upd_nth_mid_eq _ _ _ ((Ls ++ [[k; S k; S (S k)]]) ++ map ll_toks pre) [] (map ll_toks pl)) in G10
+    by (try (rewrite <- !app_assoc; reflexivity); rewrite app_length, map_length; lia).
+  cbn [app] in G10.
+  match type of G10 with GS ?x _ _ _ _ _ _ _ _ => set (s10 := x) in * end.
+  assert (En10 : ending_ctx pass s10 = Some 1).
+  { rewrite (ending_G_St bk s10 false _ tSemi (GS_ctx _ _ _ _ _ _ _ _ _ G10) eq_refl (GS_cur_is _ _ _ _ _ _ _ _ _ _ G10 Hse) I). reflexivity. }
+  rewrite (structures_stop_G _ s10 tSemi 1 (GS_err _ _ _ _ _ _ _ _ _ G10) (GS_cur_is _ _ _ _ _ _ _ _ _ _ G10 Hse) ltac:(discriminate) En10).
+  pose proof (update_statuses_GS 1 _ _ _ _ _ _ _ _ _ G10) as G11. cbn [mark_ended] in G11.
+  pose proof (pop_ctx_GS _ _ _ _ _ _ _ _ _ _ G11) as G12.
+  pose proof (finish_GS _ _ _ _ _ _ _ _ _ _ G12) as G13.
+  rewrite (nth_mid_eq _ _ ((Ls ++ [[k; S k; S (S k)]]) ++ map ll_toks pre) [ke] (map ll_toks pl) []) in G13
+    by (try reflexivity; rewrite app_length, map_length; lia).
+  specialize (G13 ltac:(discriminate)).
+  rewrite (upd_nth_mid_eq _ _ _ ((M ++ [mkLM par (lvl d) LLT_CaseHeader]) ++ map meta_of pre) mc' (map meta_of pl)) in G13
+    by (try (rewrite <- !app_assoc; reflexivity); rewrite app_length, map_length, Hl0; lia).
+  rewrite first_parent_blk, plain_sum_blk, HC, Ty in G13. fold d in G13.
+  pose proof (GS_ST stk _ _ _ _ _ _ _ _ _ _ _ _ _ G13 eq_refl eq_refl eq_refl) as S13.
+  pose proof (take_separators_ST stk (CL_Level 0%Z) _ _ _ _ _ _ _ _ _ t' S13 Hse Hse1 Hne) as S14.
+  rewrite (nth_mid_eq _ _ ((Ls ++ [[k; S k; S (S k)]]) ++ map ll_toks pre) [ke] (map ll_toks pl) []) in S14
+    by (try reflexivity; rewrite app_length, map_length; lia).
+  specialize (S14 ltac:(rewrite Hj; len_tac) ltac:(discriminate)).
+  rewrite (upd_nth_mid_eq _ _ _ ((Ls ++ [[k; S k; S (S k)]]) ++ map ll_toks pre) [ke] (map ll_toks pl)) in S14
+    by (try reflexivity; rewrite app_length, map_length; lia).
+  cbn [app] in S14.
+  eexists _, _. split; [|eapply (ST_lists stk); [exact S14| |]]; cycle 1.
+  - repeat (progress (cbn [app]; rewrite <- ?app_assoc)). reflexivity.
+  - repeat (progress (cbn [app]; rewrite <- ?app_assoc)). reflexivity.
+  - reflexivity.
+Qed.
+
+(* ---------------- case Identifier of arms else stmts end ; *)
+Lemma iter_caseelse stk par bk a e f s k Ls M mc last C lv a0 t' :
+  Parms a -> IHfor stk par KElse e ((cStk bk, false) :: (cBlk bk, false) :: C) -> notd C ->
+  ST stk s k Ls [] M mc last ((cBlk bk, false) :: C) lv a0 -> first_parent C = par ->
+  nth_error T k = Some tCase -> nth_error T (S k) = Some tI -> nth_error T (S (S k)) = Some tOf ->
+  toks_at (S (S (S k))) (render_arms a ++ [tElse]) ->
+  toks_at (S (S (S (S k)) + length (render_arms a))) (render e ++ [tEnd]) ->
+  nth_error T (S (S (S (S (S k)) + length (render_arms a)) + length (render e))) = Some tSemi ->
+  nth_error T (S (S (S (S (S (S k)) + length (render_arms a)) + length (render e)))) = Some t' -> t' <> tSemi ->
+  20 + need_arms a + need e <= f ->
+  let d := (1 + plain_sum C)%Z in
+  let ke := S (S (S k)) + length (render_arms a) in
+  let kee := S ke + length (render e) in
+  let pre := arms_pre par d (S (S (S k))) (length Ls + 1) a (fun _ => []) in
+  let j := arms_li (S (S (S k))) (length Ls + 1) a (fun _ => []) in
+  let pl := arms_pend (S (S (S k))) (length Ls + 1) a (fun _ => []) (j + 1) in
+  let le := pexpected par (d + 1) (S ke) (j + 1 + length pl) e in
+  exists mc3 last3, lm_type mc3 = LLT_Unknown /\
+  ST stk (take_separators_on_last_line pass (CL_Level 0%Z) (finish_logical_line pass (RUN f (C_with_ctx (cStk bk) A_structures) s)))
+     (S (S kee)) (Ls ++ [k; S k; S (S k)] :: map ll_toks pre ++ [ke] :: map ll_toks pl ++ map ll_toks le ++ [[kee; S kee]]) []
+     (M ++ mkLM par (lvl d) LLT_CaseHeader :: map meta_of pre ++ mkLM par (lvl d) LLT_Unknown :: map meta_of pl ++ map meta_of le
+        ++ [mkLM par (lvl d) LLT_Unknown])
+     mc3 last3 ((cBlk bk, false) :: C) lv a0.
+Proof.
+  intros IHa IHe Hnd H HC Hk Hk1 Hk2 Hb Hbe Hse Hse1 Hne Hf d ke kee pre j pl le.
+  assert (Hkn : k < n) by (apply nth_error_Some; congruence).
+  assert (Hkn2 : S (S k) < n) by (apply nth_error_Some; congruence).
+  assert (Ml : length M = length Ls) by (destruct H as (_ & _ & Ml & _); exact Ml).
+  assert (Hke : nth_error T ke = Some tElse).
+  { specialize (Hb (length (render_arms a)) tElse). rewrite nth_error_app2, Nat.sub_diag in Hb by lia. exact (Hb eq_refl). }
+  assert (Hken : ke < n) by (apply nth_error_Some; congruence).
+  destruct f as [|[|[|[|[|[|f]]]]]]; try lia.
+  rewrite (with_ctx_structures _ (cStk bk) s (ST_err stk _ _ _ _ _ _ _ _ _ _ H) eq_refl).
+  pose proof (finish_empty_ST stk _ _ _ _ _ _ _ _ _ H) as H0.
+  pose proof (push_ctx_ST stk (cStk bk) _ _ _ _ _ _ _ _ _ _ H0) as H1.
+  rewrite (run_S _ C_structures _ (ST_err stk _ _ _ _ _ _ _ _ _ _ H1)).
+  unfold arm_structures. rewrite (ST_cur_tt stk _ _ _ _ _ _ _ _ _ _ _ H1 Hk). cbn [tCase].
+  rewrite (ending_St_SB stk bk _ _ _ _ _ _ _ _ _ _ _ H1 Hk). cbn [tCase is_term sarm_of].
+  unfold sa_case. rewrite (in_type_decl_false stk bk _ _ _ _ _ _ _ _ _ _ H1 Hnd). unfold s_loop.
+  rewrite (run_S _ C_case_statement _ (ST_err stk _ _ _ _ _ _ _ _ _ _ H1)). unfold arm_case_statement.
+  change (ctx CT_Utility true P_of (ParserGrammar.L 0)) with (cUtp HOf).
+  pose proof (next_token_ST stk _ _ _ _ _ _ _ _ _ _ H1 Hkn) as H2. cbn [app] in H2.
+  pose proof (set_line_type_ST stk LLT_CaseHeader _ _ _ _ _ _ _ _ _ _ H2) as H2'. cbn [lm_parent lm_level] in H2'.
+  pose proof (line_section_run stk HOf (S (S (S f))) _ _ _ _ _ _ _ _ _ _ H2' Hk1 Hk2 ltac:(lia)) as H3. cbn [app] in H3.
+  match type of H3 with ST _ ?x _ _ _ _ _ _ _ _ _ => set (s3 := x) in * end.
+  cbv zeta. rewrite (ST_cur_tt stk _ _ _ _ _ _ _ _ _ _ _ H3 Hk2). cbn [tOf o_kw_of].
+  pose proof (next_token_ST stk _ _ _ _ _ _ _ _ _ _ H3 Hkn2) as H4. cbn [app] in H4.
+  pose proof (finish_ST stk _ _ _ _ _ _ _ _ _ _ H4 ltac:(discriminate)) as H5. cbn [lm_type] in H5.
+  rewrite (first_parent_St_blk bk), (plain_sum_St_blk bk), HC in H5.
+  replace (clamp_u16 (0 + (1 + plain_sum C))) with (lvl d) in H5 by (unfold lvl, d; f_equal; lia).
+  match type of H5 with ST _ ?x _ _ _ _ _ _ _ _ _ => set (s5 := x) in * end.
+  (* the case block and its arms *)
+  cbv delta [stmt_block] beta.
+  change (ctx (CT_Statement SK_Case) true P_else_end (ParserGrammar.L 1)) with (cBlk KCaseE).
+  rewrite (run_S _ (C_stmt_block (cBlk KCaseE) SK_Case) _ (ST_err stk _ _ _ _ _ _ _ _ _ _ H5)). unfold arm_stmt_block.
+  rewrite (with_ctx_stmt_list _ (cBlk KCaseE) _ _ (ST_err stk _ _ _ _ _ _ _ _ _ _ H5) eq_refl).
+  change (C_stmt_list (CT_Statement SK_Case) false P_semicolon) with (slc KCaseE).
+  pose proof (finish_empty_ST stk _ _ _ _ _ _ _ _ _ H5) as H6. cbn [lm_parent lm_level] in H6.
+  pose proof (push_ctx_ST stk (cBlk KCaseE) _ _ _ _ _ _ _ _ _ _ H6) as H7.
+  pose proof (ST_GS stk _ _ _ _ _ _ _ _ _ _ H7) as G7.
+  assert (Hl0 : length (M ++ [mkLM par (lvl d) LLT_CaseHeader]) = length (Ls ++ [[k; S k; S (S k)]])) by (rewrite !app_length, Ml; reflexivity).
+  destruct (IHa stk par KCaseE bk C (S f) _ (S (S (S k))) (Ls ++ [[k; S k; S (S k)]]) [] (M ++ [mkLM par (lvl d) LLT_CaseHeader]) _ [] _ _ _
+              (fun _ => []) eq_refl Hnd HC G7 Hl0 eq_refl eq_refl Hb ltac:(lia)) as (mc' & last' & fl & Ty & G8).
+  cbv zeta in G8. fold ke in G8.
+  replace (length (Ls ++ [[k; S k; S (S k)]])) with (length Ls + 1) in G8 by (rewrite app_length; reflexivity).
+  fold d in G8. fold pre in G8. fold j in G8. fold pl in G8.
+  pose proof (pop_ctx_GS _ _ _ _ _ _ _ _ _ _ G8) as G9.
+  match type of G9 with GS ?x _ _ _ _ _ _ _ _ => set (s9 := x) in * end.
+  rewrite (GS_cur_tt _ _ _ _ _ _ _ _ _ _ G9 Hke). cbn [tElse o_kw_else].
+  assert (Hj : j = length (Ls ++ [[k; S k; S (S k)]]) + length pre).
+  { unfold j, pre. rewrite (arms_li_eq a par d), app_length. reflexivity. }
+  (* `else` joins the line that is current after the last arm; the else block *)
+  pose proof (next_token_GS _ _ _ _ _ _ _ _ _ _ G9 Hken) as G10.
+  rewrite (upd_nth_mid_eq _ _ _ ((Ls ++ [[k; S k; S (S k)]]) ++ map ll_toks pre) [] (map ll_toks pl)) in G10
+    by (try (rewrite <- !app_assoc; reflexivity); rewrite app_length, map_length; lia).
+  cbn [app] in G10.
+  pose proof (finish_GS _ _ _ _ _ _ _ _ _ _ G10) as G11.
+  rewrite (nth_mid_eq _ _ ((Ls ++ [[k; S k; S (S k)]]) ++ map ll_toks pre) [ke] (map ll_toks pl) []) in G11
+    by (try reflexivity; rewrite app_length, map_length; lia).
+  specialize (G11 ltac:(discriminate)).
+  rewrite (upd_nth_mid_eq _ _ _ ((M ++ [mkLM par (lvl d) LLT_CaseHeader]) ++ map meta_of pre) mc' (map meta_of pl)) in G11
+    by (try (rewrite <- !app_assoc; reflexivity); rewrite app_length, map_length, Hl0; lia).
+  rewrite (first_parent_St_blk bk), (plain_sum_St_blk bk), HC, Ty in G11.
+  replace (clamp_u16 (0 + (1 + plain_sum C))) with (lvl d) in G11 by (unfold lvl, d; f_equal; lia).
+  pose proof (GS_ST stk _ _ _ _ _ _ _ _ _ _ _ _ _ G11 eq_refl eq_refl eq_refl) as S11.
+  match type of S11 with ST _ ?x _ _ _ _ _ _ _ _ _ => set (s11 := x) in * end.
+  change (ctx (CT_StatementBlock BK_Else) true P_end (ParserGrammar.L 1)) with (cBlk KElse).
+  rewrite (run_S _ (C_stmt_block (cBlk KElse) SK_Normal) _ (ST_err stk _ _ _ _ _ _ _ _ _ _ S11)). unfold arm_stmt_block.
+  rewrite (with_ctx_stmt_list _ (cBlk KElse) _ _ (ST_err stk _ _ _ _ _ _ _ _ _ _ S11) eq_refl).
+  change (C_stmt_list (CT_Statement SK_Normal) false P_semicolon) with (slc KElse).
+  pose proof (finish_empty_ST stk _ _ _ _ _ _ _ _ _ S11) as S12. cbn [lm_parent lm_level] in S12.
+  pose proof (push_ctx_ST stk (cBlk KElse) _ _ _ _ _ _ _ _ _ _ S12) as S13.
+  pose proof (fun Hli => IHe (S f) _ _ _ _ _ _ _ _ (j + 1 + length pl) ltac:(lia) Hli S13 Hbe) as IHe'.
+  destruct (IHe' ltac:(rewrite Hj; len_tac)) as (mcb & lastb & flb & Tyb & S14).
+  rewrite (plain_sum_St_blk bk) in S14. replace (1 + (0 + (1 + plain_sum C)))%Z with (d + 1)%Z in S14 by (unfold d; lia).
+  fold le in S14. fold kee in S14.
+  pose proof (pop_ctx_ST stk _ _ _ _ _ _ _ _ _ _ _ S14) as S15.
+  match type of S15 with ST _ ?x _ _ _ _ _ _ _ _ _ => set (s15 := x) in * end.
+  assert (Hkee : nth_error T kee = Some tEnd).
+  { specialize (Hbe (length (render e)) tEnd). rewrite nth_error_app2, Nat.sub_diag in Hbe by lia. exact (Hbe eq_refl). }
+  assert (Hkeen : kee < n) by (apply nth_error_Some; congruence).
+  rewrite (ST_cur_tt stk _ _ _ _ _ _ _ _ _ _ _ S15 Hkee). cbn [tEnd o_kw_end].
+  pose proof (next_token_ST stk _ _ _ _ _ _ _ _ _ _ S15 Hkeen) as S16. cbn [app] in S16.
+  rewrite (structures_stop stk _ _ _ _ _ _ _ _ _ _ _ _ _ S16 Hse ltac:(discriminate) (ending_St_SB stk bk _ _ _ _ _ _ _ _ _ _ _ S16 Hse)).
+  pose proof (update_statuses_ST stk 1 _ _ _ _ _ _ _ _ _ _ S16) as S17. cbn [mark_ended] in S17.
+  pose proof (pop_ctx_ST stk _ _ _ _ _ _ _ _ _ _ _ S17) as S18.
+  pose proof (finish_ST stk _ _ _ _ _ _ _ _ _ _ S18 ltac:(discriminate)) as S19.
+  rewrite first_parent_blk, plain_sum_blk, HC, Tyb in S19. fold d in S19.
+  pose proof (take_separators_ST stk (CL_Level 0%Z) _ _ _ _ _ _ _ _ _ t' S19 Hse Hse1 Hne) as S20.
+  specialize (S20 ltac:(rewrite last_length; lia)). rewrite nth_app_last in S20.
+  specialize (S20 ltac:(discriminate)). rewrite upd_nth_app_last in S20. cbn [app] in S20.
+  eexists _, _. split; [|eapply (ST_lists stk); [exact S20| |]]; cycle 1.
+  - repeat (progress (cbn [app]; rewrite <- ?app_assoc)). reflexivity.
+  - repeat (progress (cbn [app]; rewrite <- ?app_assoc)). reflexivity.
+  - reflexivity.
+Qed.
+
+(* ---------------- the statement-list loop on any statement list of the fragment *)
+Theorem stmts_run : forall ss stk par bk C, sk_of bk <> SK_Case -> notd C -> first_parent C = par -> IHfor stk par bk ss C.
+Proof.
+  apply (stmts_mut (fun ss => forall stk par bk C, sk_of bk <> SK_Case -> notd C -> first_parent C = par -> IHfor stk par bk ss C)
+                   Qbody Parms).
   - (* no statement: the loop runs once, in front of `end` *)
-    intros stk par bk C HC f s k Ls M mc last lv a li Hf Hli H Ht; subst li; unfold Post.
+    intros stk par bk C Hsk Hnd HC f s k Ls M mc last lv a li Hf Hli H Ht; subst li; unfold Post.
     unfold need in Hf. cbn [render length] in *. destruct f as [|[|[|f]]]; try lia.
     pose proof (toks_at_0 _ _ _ Ht eq_refl) as Hk.
     assert (Hnt : tTerm bk <> tSemi) by (destruct bk; discriminate).
@@ -1856,7 +2530,7 @@ Proof.
     { unfold is_ending, ending_ctx. rewrite (ST_ctx stk _ _ _ _ _ _ _ _ _ _ H4). reflexivity. }
     rewrite IE. cbn [orb pexpected map]. rewrite !app_nil_r, Nat.add_0_r. eexists _, _, _. split; [|exact H4]. reflexivity.
   - (* Identifier ; *)
-    intros r IHr stk par bk C HC f s k Ls M mc last lv a li Hf Hli H Ht; subst li; unfold Post.
+    intros r IHr stk par bk C Hsk Hnd HC f s k Ls M mc last lv a li Hf Hli H Ht; subst li; unfold Post.
     unfold need in Hf. cbn [render length] in *. destruct f as [|f]; [lia|].
     pose proof (Ht 0 _ eq_refl) as Hk. rewrite Nat.add_0_r in Hk.
     pose proof (Ht 1 _ eq_refl) as Hk1. replace (k + 1) with (S k) in Hk1 by lia.
@@ -1865,16 +2539,16 @@ Proof.
     destruct (head_tok bk r) as (t' & H0 & N1 & _). pose proof (toks_at_0 _ _ _ Htr H0) as Hk2.
     unfold slc. rewrite (stmt_list_unfold _ _ _ _ _ (ST_err stk _ _ _ _ _ _ _ _ _ _ H)). cbv zeta.
     change (ctx (CT_Statement (sk_of bk)) false P_semicolon (ParserGrammar.L 0)) with (cStk bk).
-    pose proof (iter_simple stk par bk f _ _ _ _ _ _ _ _ _ t' H HC Hk Hk1 Hk2 N1 ltac:(lia)) as H3.
+    pose proof (iter_simple stk par bk f _ _ _ _ _ _ _ _ _ t' Hsk H HC Hk Hk1 Hk2 N1 ltac:(lia)) as H3.
     assert (Hn : need r <= f) by (unfold need; lia).
-    pose proof (fun Hty => loop_tail stk par bk r C (IHr stk par bk C HC) f _ _ _ _ _ _ _ _ _ Hn eq_refl Hty H3 Htr) as LT.
+    pose proof (fun Hty => loop_tail stk par bk r C (IHr stk par bk C Hsk Hnd HC) f _ _ _ _ _ _ _ _ _ Hn eq_refl Hty H3 Htr) as LT.
     destruct (LT eq_refl) as (mc' & last' & fl & Ty & H4).
     exists mc', last', fl. split; [exact Ty|].
     cbn [pexpected map]. replace (k + 1) with (S k) by lia. replace (k + 2) with (S (S k)) by lia.
     replace (k + S (S (length (render r)))) with (S (S k) + length (render r)) by lia.
     fix_li r H4. rewrite <- !app_assoc in H4. cbn [app] in H4. exact H4.
   - (* Identifier := Identifier ; *)
-    intros r IHr stk par bk C HC f s k Ls M mc last lv a li Hf Hli H Ht; subst li; unfold Post.
+    intros r IHr stk par bk C Hsk Hnd HC f s k Ls M mc last lv a li Hf Hli H Ht; subst li; unfold Post.
     unfold need in Hf. cbn [render length] in *. destruct f as [|f]; [lia|].
     pose proof (Ht 0 _ eq_refl) as Hk. rewrite Nat.add_0_r in Hk.
     pose proof (Ht 1 _ eq_refl) as Hk1. replace (k + 1) with (S k) in Hk1 by lia.
@@ -1885,9 +2559,9 @@ Proof.
     destruct (head_tok bk r) as (t' & H0 & N1 & _). pose proof (toks_at_0 _ _ _ Htr H0) as Hk4.
     unfold slc. rewrite (stmt_list_unfold _ _ _ _ _ (ST_err stk _ _ _ _ _ _ _ _ _ _ H)). cbv zeta.
     change (ctx (CT_Statement (sk_of bk)) false P_semicolon (ParserGrammar.L 0)) with (cStk bk).
-    pose proof (iter_assign stk par bk f _ _ _ _ _ _ _ _ _ t' H HC Hk Hk1 Hk2 Hk3 Hk4 N1 ltac:(lia)) as H3.
+    pose proof (iter_assign stk par bk f _ _ _ _ _ _ _ _ _ t' Hsk H HC Hk Hk1 Hk2 Hk3 Hk4 N1 ltac:(lia)) as H3.
     assert (Hn : need r <= f) by (unfold need; lia).
-    pose proof (fun Hty => loop_tail stk par bk r C (IHr stk par bk C HC) f _ _ _ _ _ _ _ _ _ Hn eq_refl Hty H3 Htr) as LT.
+    pose proof (fun Hty => loop_tail stk par bk r C (IHr stk par bk C Hsk Hnd HC) f _ _ _ _ _ _ _ _ _ Hn eq_refl Hty H3 Htr) as LT.
     destruct (LT eq_refl) as (mc' & last' & fl & Ty & H4).
     exists mc', last', fl. split; [exact Ty|].
     cbn [pexpected map]. replace (k + 1) with (S k) by lia. replace (k + 2) with (S (S k)) by lia.
@@ -1895,7 +2569,7 @@ Proof.
     replace (k + S (S (S (S (length (render r)))))) with (S (S (S (S k))) + length (render r)) by lia.
     fix_li r H4. rewrite <- !app_assoc in H4. cbn [app] in H4. exact H4.
   - (* begin b end ; *)
-    intros b IHb r IHr stk par bk C HC f s k Ls M mc last lv a li Hf Hli H Ht; subst li; unfold Post.
+    intros b IHb r IHr stk par bk C Hsk Hnd HC f s k Ls M mc last lv a li Hf Hli H Ht; subst li; unfold Post.
     unfold need in Hf. cbn [render length] in *. rewrite app_length in Hf. cbn [length] in Hf. destruct f as [|f]; [lia|].
     assert (Eq : (tBegin :: render b ++ tEnd :: tSemi :: render r) ++ [tTerm bk]
                  = [tBegin] ++ (render b ++ [tEnd]) ++ [tSemi] ++ (render r ++ [tTerm bk])).
@@ -1915,9 +2589,10 @@ Proof.
     unfold slc. rewrite (stmt_list_unfold _ _ _ _ _ (ST_err stk _ _ _ _ _ _ _ _ _ _ H)). cbv zeta.
     change (ctx (CT_Statement (sk_of bk)) false P_semicolon (ParserGrammar.L 0)) with (cStk bk).
     assert (HC' : first_parent (((cStk bk), false) :: (cBlk bk, false) :: C) = par) by (rewrite first_parent_St_blk; exact HC).
-    destruct (iter_block stk par bk b f _ _ _ _ _ _ _ _ _ t' (IHb stk par KBegin _ HC') H HC Hk Htb Hse Hse1 N1 ltac:(unfold need; lia)) as (mc3 & Ty3 & H3).
+    assert (Hnd' : notd ((cStk bk, false) :: (cBlk bk, false) :: C)) by (apply notd_St_blk, Hnd).
+    destruct (iter_block stk par bk b f _ _ _ _ _ _ _ _ _ t' (IHb stk par KBegin _ ltac:(discriminate) Hnd' HC') H HC Hk Htb Hse Hse1 N1 ltac:(unfold need; lia)) as (mc3 & Ty3 & H3).
     fold e in H3.
-    destruct (loop_tail stk par bk r C (IHr stk par bk C HC) f _ _ _ _ _ _ _ _ _ ltac:(unfold need; lia) eq_refl Ty3 H3 Htr) as (mc' & last' & fl & Ty & H4).
+    destruct (loop_tail stk par bk r C (IHr stk par bk C Hsk Hnd HC) f _ _ _ _ _ _ _ _ _ ltac:(unfold need; lia) eq_refl Ty3 H3 Htr) as (mc' & last' & fl & Ty & H4).
     exists mc', last', fl. split; [exact Ty|].
     cbn [pexpected]. cbv zeta. replace (k + 1) with (S k) by lia. fold e.
     replace (e + 1) with (S e) by lia. replace (e + 2) with (S (S e)) by lia.
@@ -1926,7 +2601,7 @@ Proof.
     replace (length Ls + 1) with (S (length Ls)) by lia. fix_li r H4.
     eapply (ST_lists stk); [exact H4| |]; cbn [map]; repeat (rewrite map_app; cbn [map]); cbn [map app ll_toks]; repeat (progress (cbn [app]; rewrite <- ?app_assoc)); reflexivity.
   - (* repeat b until Identifier ; *)
-    intros b IHb r IHr stk par bk C HC f s k Ls M mc last lv a li Hf Hli H Ht; subst li; unfold Post.
+    intros b IHb r IHr stk par bk C Hsk Hnd HC f s k Ls M mc last lv a li Hf Hli H Ht; subst li; unfold Post.
     unfold need in Hf. cbn [render length] in *. rewrite app_length in Hf. cbn [length] in Hf. destruct f as [|f]; [lia|].
     assert (Eq : (tRepeat :: render b ++ tUntil :: tI :: tSemi :: render r) ++ [tTerm bk]
                  = [tRepeat] ++ (render b ++ [tUntil]) ++ [tI; tSemi] ++ (render r ++ [tTerm bk])).
@@ -1947,9 +2622,10 @@ Proof.
     unfold slc. rewrite (stmt_list_unfold _ _ _ _ _ (ST_err stk _ _ _ _ _ _ _ _ _ _ H)). cbv zeta.
     change (ctx (CT_Statement (sk_of bk)) false P_semicolon (ParserGrammar.L 0)) with (cStk bk).
     assert (HC' : first_parent (((cStk bk), false) :: (cBlk bk, false) :: C) = par) by (rewrite first_parent_St_blk; exact HC).
-    destruct (iter_repeat stk par bk b f _ _ _ _ _ _ _ _ _ t' (IHb stk par KRepeat _ HC') H HC Hk Htb Hi Hse Hse1 N1 ltac:(unfold need; lia)) as (mc3 & last3 & Ty3 & H3).
+    assert (Hnd' : notd ((cStk bk, false) :: (cBlk bk, false) :: C)) by (apply notd_St_blk, Hnd).
+    destruct (iter_repeat stk par bk b f _ _ _ _ _ _ _ _ _ t' (IHb stk par KRepeat _ ltac:(discriminate) Hnd' HC') H HC Hk Htb Hi Hse Hse1 N1 ltac:(unfold need; lia)) as (mc3 & last3 & Ty3 & H3).
     fold e in H3.
-    destruct (loop_tail stk par bk r C (IHr stk par bk C HC) f _ _ _ _ _ _ _ _ _ ltac:(unfold need; lia) eq_refl Ty3 H3 Htr) as (mc' & last' & fl & Ty & H4).
+    destruct (loop_tail stk par bk r C (IHr stk par bk C Hsk Hnd HC) f _ _ _ _ _ _ _ _ _ ltac:(unfold need; lia) eq_refl Ty3 H3 Htr) as (mc' & last' & fl & Ty & H4).
     exists mc', last', fl. split; [exact Ty|].
     cbn [pexpected]. cbv zeta. replace (k + 1) with (S k) by lia. fold e.
     replace (e + 1) with (S e) by lia. replace (e + 2) with (S (S e)) by lia. replace (e + 3) with (S (S (S e))) by lia.
@@ -1958,7 +2634,7 @@ Proof.
     replace (length Ls + 1) with (S (length Ls)) by lia. fix_li r H4.
     eapply (ST_lists stk); [exact H4| |]; cbn [map]; repeat (rewrite map_app; cbn [map]); cbn [map app ll_toks]; repeat (progress (cbn [app]; rewrite <- ?app_assoc)); reflexivity.
   - (* try b finally c end ; *)
-    intros b IHb c IHc r IHr stk par bk C HC f s k Ls M mc last lv a li Hf Hli H Ht; subst li; unfold Post.
+    intros b IHb c IHc r IHr stk par bk C Hsk Hnd HC f s k Ls M mc last lv a li Hf Hli H Ht; subst li; unfold Post.
     unfold need in Hf. cbn [render length] in *. rewrite !app_length in Hf. cbn [length] in Hf. rewrite app_length in Hf. cbn [length] in Hf.
     destruct f as [|f]; [lia|].
     assert (Eq : (tTry :: render b ++ tFinally :: render c ++ tEnd :: tSemi :: render r) ++ [tTerm bk]
@@ -1984,9 +2660,10 @@ Proof.
     unfold slc. rewrite (stmt_list_unfold _ _ _ _ _ (ST_err stk _ _ _ _ _ _ _ _ _ _ H)). cbv zeta.
     change (ctx (CT_Statement (sk_of bk)) false P_semicolon (ParserGrammar.L 0)) with (cStk bk).
     assert (HC' : first_parent (((cStk bk), false) :: (cBlk bk, false) :: C) = par) by (rewrite first_parent_St_blk; exact HC).
-    destruct (iter_try stk par bk b c f _ _ _ _ _ _ _ _ _ t' (IHb stk par KTry _ HC') (IHc stk par KFinally _ HC') H HC Hk Htb Htc Hse Hse1 N1 ltac:(unfold need; lia)) as (mc3 & last3 & Ty3 & H3).
+    assert (Hnd' : notd ((cStk bk, false) :: (cBlk bk, false) :: C)) by (apply notd_St_blk, Hnd).
+    destruct (iter_try stk par bk b c f _ _ _ _ _ _ _ _ _ t' (IHb stk par KTry _ ltac:(discriminate) Hnd' HC') (IHc stk par KFinally _ ltac:(discriminate) Hnd' HC') H HC Hk Htb Htc Hse Hse1 N1 ltac:(unfold need; lia)) as (mc3 & last3 & Ty3 & H3).
     fold m in H3. fold e in H3.
-    destruct (loop_tail stk par bk r C (IHr stk par bk C HC) f _ _ _ _ _ _ _ _ _ ltac:(unfold need; lia) eq_refl Ty3 H3 Htr) as (mc' & last' & fl & Ty & H4).
+    destruct (loop_tail stk par bk r C (IHr stk par bk C Hsk Hnd HC) f _ _ _ _ _ _ _ _ _ ltac:(unfold need; lia) eq_refl Ty3 H3 Htr) as (mc' & last' & fl & Ty & H4).
     exists mc', last', fl. split; [exact Ty|].
     cbn [pexpected]. cbv zeta. replace (k + 1) with (S k) by lia. fold m. replace (m + 1) with (S m) by lia. fold e.
     replace (e + 1) with (S e) by lia. replace (e + 2) with (S (S e)) by lia.
@@ -1995,7 +2672,7 @@ Proof.
     replace (length Ls + 1) with (S (length Ls)) by lia. fix_li r H4.
     eapply (ST_lists stk); [exact H4| |]; cbn [map]; repeat (rewrite map_app; cbn [map]); cbn [map app ll_toks]; repeat (progress (cbn [app]; rewrite <- ?app_assoc)); reflexivity.
   - (* try b except c end ; *)
-    intros b IHb c IHc r IHr stk par bk C HC f s k Ls M mc last lv a li Hf Hli H Ht; subst li; unfold Post.
+    intros b IHb c IHc r IHr stk par bk C Hsk Hnd HC f s k Ls M mc last lv a li Hf Hli H Ht; subst li; unfold Post.
     unfold need in Hf. cbn [render length] in *. rewrite !app_length in Hf. cbn [length] in Hf. rewrite app_length in Hf. cbn [length] in Hf.
     destruct f as [|f]; [lia|].
     assert (Eq : (tTry :: render b ++ tExcept :: render c ++ tEnd :: tSemi :: render r) ++ [tTerm bk]
@@ -2021,9 +2698,10 @@ Proof.
     unfold slc. rewrite (stmt_list_unfold _ _ _ _ _ (ST_err stk _ _ _ _ _ _ _ _ _ _ H)). cbv zeta.
     change (ctx (CT_Statement (sk_of bk)) false P_semicolon (ParserGrammar.L 0)) with (cStk bk).
     assert (HC' : first_parent (((cStk bk), false) :: (cBlk bk, false) :: C) = par) by (rewrite first_parent_St_blk; exact HC).
-    destruct (iter_tryexcept stk par bk b c f _ _ _ _ _ _ _ _ _ t' (IHb stk par KTryE _ HC') (IHc stk par KExcept _ HC') H HC Hk Htb Htc Hse Hse1 N1 ltac:(unfold need; lia)) as (mc3 & last3 & Ty3 & H3).
+    assert (Hnd' : notd ((cStk bk, false) :: (cBlk bk, false) :: C)) by (apply notd_St_blk, Hnd).
+    destruct (iter_tryexcept stk par bk b c f _ _ _ _ _ _ _ _ _ t' (IHb stk par KTryE _ ltac:(discriminate) Hnd' HC') (IHc stk par KExcept _ ltac:(discriminate) Hnd' HC') H HC Hk Htb Htc Hse Hse1 N1 ltac:(unfold need; lia)) as (mc3 & last3 & Ty3 & H3).
     fold m in H3. fold e in H3.
-    destruct (loop_tail stk par bk r C (IHr stk par bk C HC) f _ _ _ _ _ _ _ _ _ ltac:(unfold need; lia) eq_refl Ty3 H3 Htr) as (mc' & last' & fl & Ty & H4).
+    destruct (loop_tail stk par bk r C (IHr stk par bk C Hsk Hnd HC) f _ _ _ _ _ _ _ _ _ ltac:(unfold need; lia) eq_refl Ty3 H3 Htr) as (mc' & last' & fl & Ty & H4).
     exists mc', last', fl. split; [exact Ty|].
     cbn [pexpected]. cbv zeta. replace (k + 1) with (S k) by lia. fold m. replace (m + 1) with (S m) by lia. fold e.
     replace (e + 1) with (S e) by lia. replace (e + 2) with (S (S e)) by lia.
@@ -2032,7 +2710,7 @@ Proof.
     replace (length Ls + 1) with (S (length Ls)) by lia. fix_li r H4.
     eapply (ST_lists stk); [exact H4| |]; cbn [map]; repeat (rewrite map_app; cbn [map]); cbn [map app ll_toks]; repeat (progress (cbn [app]; rewrite <- ?app_assoc)); reflexivity.
   - (* if Identifier then c ; *)
-    intros c IHc r IHr stk par bk C HC f s k Ls M mc last lv a li Hf Hli H Ht; subst li; unfold Post.
+    intros c IHc r IHr stk par bk C Hsk Hnd HC f s k Ls M mc last lv a li Hf Hli H Ht; subst li; unfold Post.
     unfold need in Hf. cbn [render length] in *. rewrite app_length in Hf. cbn [length] in Hf. destruct f as [|f]; [lia|].
     assert (Eq : (tIf :: tI :: tThen :: render_body c ++ tSemi :: render r) ++ [tTerm bk]
                  = [tIf; tI; tThen] ++ (render_body c ++ [tSemi]) ++ (render r ++ [tTerm bk])).
@@ -2052,9 +2730,9 @@ Proof.
     pose proof (head_tok_ne_eof bk r t' H0) as NE.
     unfold slc. rewrite (stmt_list_unfold _ _ _ _ _ (ST_err stk _ _ _ _ _ _ _ _ _ _ H)). cbv zeta.
     change (ctx (CT_Statement (sk_of bk)) false P_semicolon (ParserGrammar.L 0)) with (cStk bk).
-    pose proof (iter_if stk par bk c f _ _ _ _ _ _ _ _ _ t' (fun b Hb => IHc b Hb _ _ KBegin _ eq_refl) H HC Hk Hk1 Hk2 Htb Hse1 N1 NE ltac:(lia)) as H3.
+    pose proof (iter_if stk par bk c f _ _ _ _ _ _ _ _ _ t' (fun b Hb => IHc b Hb _ _ KBegin _ ltac:(discriminate) (notd_Xc _ _ _ _ Hnd) eq_refl) H HC Hk Hk1 Hk2 Htb Hse1 N1 NE ltac:(lia)) as H3.
     cbv zeta in H3. fold e in H3.
-    pose proof (fun Hty => loop_tail stk par bk r C (IHr stk par bk C HC) f _ _ _ _ _ _ _ _ _ ltac:(unfold need; lia) eq_refl Hty H3 Htr) as LT.
+    pose proof (fun Hty => loop_tail stk par bk r C (IHr stk par bk C Hsk Hnd HC) f _ _ _ _ _ _ _ _ _ ltac:(unfold need; lia) eq_refl Hty H3 Htr) as LT.
     destruct (LT eq_refl) as (mc' & last' & fl & Ty & H4).
     exists mc', last', fl. split; [exact Ty|].
     cbn [pexpected]. cbv zeta. replace (k + 1) with (S k) by lia. replace (k + 2) with (S (S k)) by lia. replace (k + 3) with (S (S (S k))) by lia.
@@ -2064,7 +2742,7 @@ Proof.
     fix_li r H4.
     eapply (ST_lists stk); [exact H4| |]; cbn [map]; repeat (rewrite map_app; cbn [map]); cbn [map app ll_toks]; repeat (progress (cbn [app]; rewrite <- ?app_assoc)); reflexivity.
   - (* if Identifier then c1 else c2 ; *)
-    intros c1 IHc1 c2 IHc2 r IHr stk par bk C HC f s k Ls M mc last lv a li Hf Hli H Ht; subst li; unfold Post.
+    intros c1 IHc1 c2 IHc2 r IHr stk par bk C Hsk Hnd HC f s k Ls M mc last lv a li Hf Hli H Ht; subst li; unfold Post.
     unfold need in Hf. cbn [render length] in *. rewrite !app_length in Hf. cbn [length] in Hf. rewrite app_length in Hf. cbn [length] in Hf.
     destruct f as [|f]; [lia|].
     assert (Eq : (tIf :: tI :: tThen :: render_body c1 ++ tElse :: render_body c2 ++ tSemi :: render r) ++ [tTerm bk]
@@ -2090,10 +2768,10 @@ Proof.
     pose proof (head_tok_ne_eof bk r t' H0) as NE.
     unfold slc. rewrite (stmt_list_unfold _ _ _ _ _ (ST_err stk _ _ _ _ _ _ _ _ _ _ H)). cbv zeta.
     change (ctx (CT_Statement (sk_of bk)) false P_semicolon (ParserGrammar.L 0)) with (cStk bk).
-    pose proof (iter_ifelse stk par bk c1 c2 f _ _ _ _ _ _ _ _ _ t' el eq_refl (fun b Hb => IHc1 b Hb _ _ KBegin _ eq_refl)
-                  (fun b Hb => IHc2 b Hb _ _ KBegin _ eq_refl) H HC Hk Hk1 Hk2 Htb1 Htb2 Hse1 N1 NE ltac:(lia)) as H3.
+    pose proof (iter_ifelse stk par bk c1 c2 f _ _ _ _ _ _ _ _ _ t' el eq_refl (fun b Hb => IHc1 b Hb _ _ KBegin _ ltac:(discriminate) (notd_Xc _ _ _ _ Hnd) eq_refl)
+                  (fun b Hb => IHc2 b Hb _ _ KBegin _ ltac:(discriminate) (notd_Xc _ _ _ _ Hnd) eq_refl) H HC Hk Hk1 Hk2 Htb1 Htb2 Hse1 N1 NE ltac:(lia)) as H3.
     cbv zeta in H3. fold e in H3.
-    pose proof (fun Hty => loop_tail stk par bk r C (IHr stk par bk C HC) f _ _ _ _ _ _ _ _ _ ltac:(unfold need; lia) eq_refl Hty H3 Htr) as LT.
+    pose proof (fun Hty => loop_tail stk par bk r C (IHr stk par bk C Hsk Hnd HC) f _ _ _ _ _ _ _ _ _ ltac:(unfold need; lia) eq_refl Hty H3 Htr) as LT.
     destruct (LT eq_refl) as (mc' & last' & fl & Ty & H4).
     exists mc', last', fl. split; [exact Ty|].
     cbn [pexpected]. cbv zeta. replace (k + 1) with (S k) by lia. replace (k + 2) with (S (S k)) by lia. replace (k + 3) with (S (S (S k))) by lia.
@@ -2103,7 +2781,7 @@ Proof.
     fix_li r H4.
     eapply (ST_lists stk); [exact H4| |]; cbn [map]; repeat (rewrite map_app; cbn [map]); cbn [map app ll_toks]; repeat (progress (cbn [app]; rewrite <- ?app_assoc)); reflexivity.
   - (* while Identifier do c ; *)
-    intros c IHc r IHr stk par bk C HC f s k Ls M mc last lv a li Hf Hli H Ht; subst li; unfold Post.
+    intros c IHc r IHr stk par bk C Hsk Hnd HC f s k Ls M mc last lv a li Hf Hli H Ht; subst li; unfold Post.
     unfold need in Hf. cbn [render length] in *. rewrite app_length in Hf. cbn [length] in Hf. destruct f as [|f]; [lia|].
     assert (Eq : (tWhile :: tI :: tDo :: render_body c ++ tSemi :: render r) ++ [tTerm bk]
                  = [tWhile; tI; tDo] ++ (render_body c ++ [tSemi]) ++ (render r ++ [tTerm bk])).
@@ -2123,9 +2801,9 @@ Proof.
     pose proof (head_tok_ne_eof bk r t' H0) as NE.
     unfold slc. rewrite (stmt_list_unfold _ _ _ _ _ (ST_err stk _ _ _ _ _ _ _ _ _ _ H)). cbv zeta.
     change (ctx (CT_Statement (sk_of bk)) false P_semicolon (ParserGrammar.L 0)) with (cStk bk).
-    pose proof (iter_while stk par bk c f _ _ _ _ _ _ _ _ _ t' (fun b Hb => IHc b Hb _ _ KBegin _ eq_refl) H HC Hk Hk1 Hk2 Htb Hse1 N1 NE ltac:(lia)) as H3.
+    pose proof (iter_while stk par bk c f _ _ _ _ _ _ _ _ _ t' (fun b Hb => IHc b Hb _ _ KBegin _ ltac:(discriminate) (notd_Xc _ _ _ _ Hnd) eq_refl) H HC Hk Hk1 Hk2 Htb Hse1 N1 NE ltac:(lia)) as H3.
     cbv zeta in H3. fold e in H3.
-    pose proof (fun Hty => loop_tail stk par bk r C (IHr stk par bk C HC) f _ _ _ _ _ _ _ _ _ ltac:(unfold need; lia) eq_refl Hty H3 Htr) as LT.
+    pose proof (fun Hty => loop_tail stk par bk r C (IHr stk par bk C Hsk Hnd HC) f _ _ _ _ _ _ _ _ _ ltac:(unfold need; lia) eq_refl Hty H3 Htr) as LT.
     destruct (LT eq_refl) as (mc' & last' & fl & Ty & H4).
     exists mc', last', fl. split; [exact Ty|].
     cbn [pexpected]. cbv zeta. replace (k + 1) with (S k) by lia. replace (k + 2) with (S (S k)) by lia. replace (k + 3) with (S (S (S k))) by lia.
@@ -2134,9 +2812,90 @@ Proof.
       by (rewrite app_length; cbn [length]; unfold e; lia).
     fix_li r H4.
     eapply (ST_lists stk); [exact H4| |]; cbn [map]; repeat (rewrite map_app; cbn [map]); cbn [map app ll_toks]; repeat (progress (cbn [app]; rewrite <- ?app_assoc)); reflexivity.
+  - (* case Identifier of a end ; *)
+    intros a IHa r IHr stk par bk C Hsk Hnd HC f s k Ls M mc last lv a0 li Hf Hli H Ht; subst li; unfold Post.
+    unfold need in Hf. cbn [render length] in *. rewrite app_length in Hf. cbn [length] in Hf. destruct f as [|f]; [lia|].
+    assert (Eq : (tCase :: tI :: tOf :: render_arms a ++ tEnd :: tSemi :: render r) ++ [tTerm bk]
+                 = [tCase; tI; tOf] ++ (render_arms a ++ [tEnd]) ++ [tSemi] ++ (render r ++ [tTerm bk])).
+    { cbn [app]. rewrite <- !app_assoc. reflexivity. }
+    rewrite Eq in Ht.
+    pose proof (Ht 0 _ eq_refl) as Hk. rewrite Nat.add_0_r in Hk.
+    pose proof (Ht 1 _ eq_refl) as Hk1. replace (k + 1) with (S k) in Hk1 by lia.
+    pose proof (Ht 2 _ eq_refl) as Hk2. replace (k + 2) with (S (S k)) in Hk2 by lia.
+    assert (Ht3 : toks_at (S (S (S k))) ((render_arms a ++ [tEnd]) ++ [tSemi] ++ render r ++ [tTerm bk])).
+    { replace (S (S (S k))) with (k + 3) by lia. apply (toks_at_shift k 3 [tCase; tI; tOf]); [exact Ht|reflexivity]. }
+    assert (Hb : toks_at (S (S (S k))) (render_arms a ++ [tEnd])) by (eapply toks_at_prefix; exact Ht3).
+    set (ke := S (S (S k)) + length (render_arms a)).
+    assert (Hts : toks_at (S ke) ([tSemi] ++ render r ++ [tTerm bk])).
+    { replace (S ke) with (S (S (S k)) + length (render_arms a ++ [tEnd])) by (rewrite app_length; cbn [length]; unfold ke; lia).
+      apply (toks_at_shift _ _ (render_arms a ++ [tEnd])); [exact Ht3|reflexivity]. }
+    pose proof (toks_at_0 _ _ _ Hts eq_refl) as Hse.
+    assert (Htr : toks_at (S (S ke)) (render r ++ [tTerm bk])).
+    { replace (S (S ke)) with (S ke + 1) by lia. apply (toks_at_shift (S ke) 1 [tSemi]); [exact Hts|reflexivity]. }
+    destruct (head_tok bk r) as (t' & H0 & N1 & _). pose proof (toks_at_0 _ _ _ Htr H0) as Hse1.
+    unfold slc. rewrite (stmt_list_unfold _ _ _ _ _ (ST_err stk _ _ _ _ _ _ _ _ _ _ H)). cbv zeta.
+    change (ctx (CT_Statement (sk_of bk)) false P_semicolon (ParserGrammar.L 0)) with (cStk bk).
+    destruct (iter_case stk par bk a f _ _ _ _ _ _ _ _ _ t' IHa Hnd H HC Hk Hk1 Hk2 Hb Hse Hse1 N1 ltac:(unfold need_arms; lia)) as (mc3 & last3 & Ty3 & H3).
+    cbv zeta in H3. fold ke in H3.
+    destruct (loop_tail stk par bk r C (IHr stk par bk C Hsk Hnd HC) f _ _ _ _ _ _ _ _ _ ltac:(unfold need; lia) eq_refl Ty3 H3 Htr) as (mc' & last' & fl & Ty & H4).
+    exists mc', last', fl. split; [exact Ty|].
+    cbn [pexpected]. rewrite arms_lines_eq. cbv beta.
+    replace (k + 1) with (S k) by lia. replace (k + 2) with (S (S k)) by lia. replace (k + 3) with (S (S (S k))) by lia.
+    fold ke. replace (ke + 1) with (S ke) by lia. replace (ke + 2) with (S (S ke)) by lia.
+    replace (k + S (S (S (length (render_arms a ++ tEnd :: tSemi :: render r))))) with (S (S ke) + length (render r))
+      by (rewrite app_length; cbn [length]; unfold ke; lia).
+    rewrite !(arms_li_eq a par (1 + plain_sum C)) in *.
+    fix_li r H4.
+    eapply (ST_lists stk); [exact H4| |]; cbn [map]; repeat (rewrite map_app; cbn [map]); cbn [map app ll_toks]; repeat (progress (cbn [app]; rewrite <- ?app_assoc)); reflexivity.
+  - (* case Identifier of a else e end ; *)
+    intros a IHa e IHe r IHr stk par bk C Hsk Hnd HC f s k Ls M mc last lv a0 li Hf Hli H Ht; subst li; unfold Post.
+    unfold need in Hf. cbn [render length] in *. rewrite !app_length in Hf. cbn [length] in Hf. rewrite app_length in Hf. cbn [length] in Hf.
+    destruct f as [|f]; [lia|].
+    assert (Eq : (tCase :: tI :: tOf :: render_arms a ++ tElse :: render e ++ tEnd :: tSemi :: render r) ++ [tTerm bk]
+                 = [tCase; tI; tOf] ++ (render_arms a ++ [tElse]) ++ (render e ++ [tEnd]) ++ [tSemi] ++ (render r ++ [tTerm bk])).
+    { cbn [app]. rewrite <- !app_assoc. cbn [app]. rewrite <- !app_assoc. reflexivity. }
+    rewrite Eq in Ht.
+    pose proof (Ht 0 _ eq_refl) as Hk. rewrite Nat.add_0_r in Hk.
+    pose proof (Ht 1 _ eq_refl) as Hk1. replace (k + 1) with (S k) in Hk1 by lia.
+    pose proof (Ht 2 _ eq_refl) as Hk2. replace (k + 2) with (S (S k)) in Hk2 by lia.
+    assert (Ht3 : toks_at (S (S (S k))) ((render_arms a ++ [tElse]) ++ (render e ++ [tEnd]) ++ [tSemi] ++ render r ++ [tTerm bk])).
+    { replace (S (S (S k))) with (k + 3) by lia. apply (toks_at_shift k 3 [tCase; tI; tOf]); [exact Ht|reflexivity]. }
+    assert (Hb : toks_at (S (S (S k))) (render_arms a ++ [tElse])) by (eapply toks_at_prefix; exact Ht3).
+    set (ke := S (S (S k)) + length (render_arms a)).
+    assert (Ht4 : toks_at (S ke) ((render e ++ [tEnd]) ++ [tSemi] ++ render r ++ [tTerm bk])).
+    { replace (S ke) with (S (S (S k)) + length (render_arms a ++ [tElse])) by (rewrite app_length; cbn [length]; unfold ke; lia).
+      apply (toks_at_shift _ _ (render_arms a ++ [tElse])); [exact Ht3|reflexivity]. }
+    assert (Hbe : toks_at (S ke) (render e ++ [tEnd])) by (eapply toks_at_prefix; exact Ht4).
+    set (kee := S ke + length (render e)).
+    assert (Hts : toks_at (S kee) ([tSemi] ++ render r ++ [tTerm bk])).
+    { replace (S kee) with (S ke + length (render e ++ [tEnd])) by (rewrite app_length; cbn [length]; unfold kee; lia).
+      apply (toks_at_shift _ _ (render e ++ [tEnd])); [exact Ht4|reflexivity]. }
+    pose proof (toks_at_0 _ _ _ Hts eq_refl) as Hse.
+    assert (Htr : toks_at (S (S kee)) (render r ++ [tTerm bk])).
+    { replace (S (S kee)) with (S kee + 1) by lia. apply (toks_at_shift (S kee) 1 [tSemi]); [exact Hts|reflexivity]. }
+    destruct (head_tok bk r) as (t' & H0 & N1 & _). pose proof (toks_at_0 _ _ _ Htr H0) as Hse1.
+    unfold slc. rewrite (stmt_list_unfold _ _ _ _ _ (ST_err stk _ _ _ _ _ _ _ _ _ _ H)). cbv zeta.
+    change (ctx (CT_Statement (sk_of bk)) false P_semicolon (ParserGrammar.L 0)) with (cStk bk).
+    assert (HC' : first_parent ((cStk bk, false) :: (cBlk bk, false) :: C) = par) by (rewrite first_parent_St_blk; exact HC).
+    assert (Hnd' : notd ((cStk bk, false) :: (cBlk bk, false) :: C)) by (apply notd_St_blk, Hnd).
+    destruct (iter_caseelse stk par bk a e f _ _ _ _ _ _ _ _ _ t' IHa (IHe stk par KElse _ ltac:(discriminate) Hnd' HC') Hnd H HC Hk Hk1 Hk2 Hb Hbe Hse Hse1 N1
+                ltac:(unfold need_arms, need; lia)) as (mc3 & last3 & Ty3 & H3).
+    cbv zeta in H3. fold ke in H3. fold kee in H3.
+    destruct (loop_tail stk par bk r C (IHr stk par bk C Hsk Hnd HC) f _ _ _ _ _ _ _ _ _ ltac:(unfold need; lia) eq_refl Ty3 H3 Htr) as (mc' & last' & fl & Ty & H4).
+    exists mc', last', fl. split; [exact Ty|].
+    cbn [pexpected]. rewrite arms_lines_eq. cbv beta zeta.
+    replace (k + 1) with (S k) by lia. replace (k + 2) with (S (S k)) by lia. replace (k + 3) with (S (S (S k))) by lia.
+    fold ke. replace (ke + 1) with (S ke) by lia. fold kee. replace (kee + 1) with (S kee) by lia. replace (kee + 2) with (S (S kee)) by lia.
+    replace (k + S (S (S (length (render_arms a ++ tElse :: render e ++ tEnd :: tSemi :: render r))))) with (S (S kee) + length (render r))
+      by (rewrite !app_length; cbn [length]; rewrite app_length; cbn [length]; unfold kee, ke; lia).
+    rewrite !(arms_li_eq a par (1 + plain_sum C)) in *.
+    fix_li r H4.
+    eapply (ST_lists stk); [exact H4| |]; cbn [map]; repeat (rewrite map_app; cbn [map]); cbn [map app ll_toks]; repeat (progress (cbn [app]; rewrite <- ?app_assoc)); reflexivity.
   - intros b Hb. discriminate.
   - intros b Hb. discriminate.
   - intros b IHb b' Hb'. injection Hb' as <-. exact IHb.
+  - exact arms_nil_run.
+  - intros c Qc a' IHa. exact (arms_cons_run c a' Qc IHa).
 Qed.
 (* ---------------- a whole program: `begin` ss `end` `.` Eof *)
 Theorem prog_run ss f s0 mc0 last0 lv a :
@@ -2177,7 +2936,7 @@ Proof.
   cbn [first_parent plain_sum cTop ctx c_level ParserGrammar.L lm_type app length] in H3.
   change (clamp_u16 (0 + 0)) with 0%N in H3.
   pose proof (push_ctx_ST (@nil nat) (cBlk KBegin) _ _ _ _ _ _ _ _ _ _ H3) as H4.
-  pose proof (fun Hli => stmts_run ss [] None KBegin [(cTop, false)] eq_refl (S f) _ _ _ _ _ _ _ _ 1 ltac:(lia) Hli H4 Htb) as SRn.
+  pose proof (fun Hli => stmts_run ss [] None KBegin [(cTop, false)] ltac:(discriminate) eq_refl eq_refl (S f) _ _ _ _ _ _ _ _ 1 ltac:(lia) Hli H4 Htb) as SRn.
   destruct (SRn eq_refl) as (mcb & lastb & flb & Tyb & H5).
   change (C_stmt_list (CT_Statement SK_Normal) false P_semicolon) with (slc KBegin).
   cbn [plain_sum cTop ctx c_level ParserGrammar.L] in H5. change (1 + (0 + 0))%Z with 1%Z in H5.
@@ -2220,7 +2979,8 @@ End Frag.
 (* instantiation: T := render_prog ss *)
 Lemma render_plain ss : Forall plain (render ss).
 Proof.
-  apply (stmts_mut (fun ss => Forall plain (render ss)) (fun c => Forall plain (render_body c))); cbn [render render_body]; intros.
+  apply (stmts_mut (fun ss => Forall plain (render ss)) (fun c => Forall plain (render_body c)) (fun a => Forall plain (render_arms a)));
+    cbn [render render_body render_arms]; intros.
   all: repeat (first [ exact I | assumption | apply Forall_nil | apply Forall_cons | (apply Forall_app; split) ]).
 Qed.
 Lemma render_prog_plain ss : Forall plain (render_prog ss).
@@ -2408,11 +3168,26 @@ Qed.
 Lemma consolidate_parents0 pl : NoDup (concat (map ll_toks pl)) -> seg_ok [] pl -> consolidate_pass_lines [] pl = finalize pl.
 Proof. intros H1 H2. unfold consolidate_pass_lines. rewrite finalize_eq. exact (consolidate_parents pl [] pl eq_refl H1 H2). Qed.
 
+(* the arms of a case statement: the lines before the `end`/`else` line are fine, and so are the child
+   lines of the last arm wherever they are placed later *)
+Definition ext (p q : list lline) : Prop := exists x, q = p ++ x.
+Lemma ext_refl p : ext p p. Proof. exists []. rewrite app_nil_r. reflexivity. Qed.
+Lemma ext_app p x : ext p (p ++ x). Proof. exists x. reflexivity. Qed.
+Lemma ext_trans p q r : ext p q -> ext q r -> ext p r.
+Proof. intros [x ->] [y ->]. exists (x ++ y). rewrite app_assoc. reflexivity. Qed.
+Lemma par_in_ext p q par : ext p q -> par_in p par -> par_in q par.
+Proof. intros [x ->]. apply par_in_app. Qed.
+Definition Rarms (a : arms) : Prop :=
+  forall par d k li pre pend, length pre = li -> par_in pre par ->
+  (forall pre1, ext pre pre1 -> seg_ok pre1 (pend (length pre1))) ->
+  seg_ok pre (arms_pre par d k li a pend)
+  /\ (forall pre1, ext (pre ++ arms_pre par d k li a pend) pre1 -> seg_ok pre1 (arms_pend k li a pend (length pre1))).
 (* the expected pass lines: every parent is an earlier non-empty line holding the parent token *)
 Lemma pexpected_seg_ok : forall ss par d k li pre, length pre = li -> par_in pre par -> seg_ok pre (pexpected par d k li ss).
 Proof.
   apply (stmts_mut (fun ss => forall par d k li pre, length pre = li -> par_in pre par -> seg_ok pre (pexpected par d k li ss))
-                   (fun c => forall p k li semi pre, length pre = li -> par_in pre p -> seg_ok pre (pexpected_body p k li semi c)));
+                   (fun c => forall p k li semi pre, length pre = li -> par_in pre p -> seg_ok pre (pexpected_body p k li semi c))
+                   Rarms);
     cbn [pexpected pexpected_body]; cbv zeta.
   - intros. apply seg_ok_nil.
   - intros r IHr par d k li pre Hl Hp. apply seg_ok_cons; [intros _; exact Hp|]. apply IHr; [len_tac|apply par_in_app, Hp].
@@ -2451,11 +3226,53 @@ Proof.
     + apply IHc; [len_tac|]. eexists. split; [rewrite nth_error_app2, Hl, Nat.sub_diag by lia; reflexivity|].
       split; [reflexivity|]. cbn [ll_toks]. right. right. left. reflexivity.
     + apply IHr; [len_tac|do 2 apply par_in_app; exact Hp].
+  - (* case … end *)
+    intros a IHa r IHr par d k li pre Hl Hp. rewrite arms_lines_eq. cbv beta.
+    apply seg_ok_cons; [intros _; exact Hp|].
+    destruct (IHa par d (k + 3) (li + 1) (pre ++ [mkLine LLT_CaseHeader (lvl d) par [k; k + 1; k + 2]]) (fun _ => [])
+                ltac:(len_tac) (par_in_app _ _ _ Hp) (fun _ _ => seg_ok_nil _)) as [A1 A2].
+    apply seg_ok_app; [exact A1|].
+    apply seg_ok_cons; [intros _; do 2 apply par_in_app; exact Hp|].
+    apply seg_ok_app.
+    + match goal with |- seg_ok ?p (arms_pend _ _ _ _ ?i) => replace i with (length p) by (rewrite (arms_li_eq a par d); len_tac) end.
+      apply A2. rewrite <- app_assoc. apply ext_app.
+    + apply IHr; [rewrite (arms_li_eq a par d); len_tac|do 4 apply par_in_app; exact Hp].
+  - (* case … else … end *)
+    intros a IHa e IHe r IHr par d k li pre Hl Hp. rewrite arms_lines_eq. cbv beta zeta.
+    apply seg_ok_cons; [intros _; exact Hp|].
+    destruct (IHa par d (k + 3) (li + 1) (pre ++ [mkLine LLT_CaseHeader (lvl d) par [k; k + 1; k + 2]]) (fun _ => [])
+                ltac:(len_tac) (par_in_app _ _ _ Hp) (fun _ _ => seg_ok_nil _)) as [A1 A2].
+    apply seg_ok_app; [exact A1|].
+    apply seg_ok_cons; [intros _; do 2 apply par_in_app; exact Hp|].
+    apply seg_ok_app.
+    + match goal with |- seg_ok ?p (arms_pend _ _ _ _ ?i) => replace i with (length p) by (rewrite (arms_li_eq a par d); len_tac) end.
+      apply A2. rewrite <- app_assoc. apply ext_app.
+    + apply seg_ok_app; [apply IHe; [rewrite (arms_li_eq a par d); len_tac|do 4 apply par_in_app; exact Hp]|].
+      apply seg_ok_cons; [intros _; do 5 apply par_in_app; exact Hp|].
+      apply IHr; [rewrite (arms_li_eq a par d); len_tac|do 6 apply par_in_app; exact Hp].
   - intros p k li semi pre Hl Hp. apply seg_ok_cons; [intros _; exact Hp|]. apply seg_ok_cons; [discriminate|apply seg_ok_nil].
   - intros p k li semi pre Hl Hp. apply seg_ok_cons; [intros _; exact Hp|]. apply seg_ok_cons; [discriminate|apply seg_ok_nil].
   - intros b IHb p k li semi pre Hl Hp. apply seg_ok_cons; [intros _; exact Hp|].
     apply seg_ok_app; [apply IHb; [len_tac|apply par_in_app, Hp]|].
     apply seg_ok_cons; [intros _; do 2 apply par_in_app; exact Hp|]. apply seg_ok_cons; [discriminate|apply seg_ok_nil].
+  - (* no arm *)
+    intros par d k li pre pend Hl Hp Hpend. cbn [arms_pre arms_pend]. split; [apply seg_ok_nil|].
+    intros pre1 He. apply Hpend. rewrite app_nil_r in He. exact He.
+  - (* an arm *)
+    intros c IHc a' IHa par d k li pre pend Hl Hp Hpend. cbn [arms_pre arms_pend]. cbv zeta.
+    set (A := mkLine LLT_CaseArm (lvl (d + 1)) par [k; k + 1]).
+    set (e := k + 2 + length (render_body c)).
+    assert (Hl1 : length (pre ++ [A]) = li + 1) by len_tac.
+    assert (P1 : seg_ok (pre ++ [A]) (pend (li + 1))) by (rewrite <- Hl1; apply Hpend, ext_app).
+    destruct (IHa par d (e + 1) (li + 1 + length (pend (li + 1))) ((pre ++ [A]) ++ pend (li + 1))
+                (fun i => pexpected_body (Some (li, k + 1)) (k + 2) i (Some e) c)
+                ltac:(len_tac) ltac:(do 2 apply par_in_app; exact Hp)) as [B1 B2].
+    { intros pre1 He. apply IHc; [reflexivity|].
+      apply (par_in_ext ((pre ++ [A]) ++ pend (li + 1)) pre1 _ He). apply par_in_app.
+      exists A. split; [rewrite nth_error_app2, Hl, Nat.sub_diag by lia; reflexivity|]. split; [reflexivity|]. right. left. reflexivity. }
+    split.
+    + apply seg_ok_cons; [intros _; exact Hp|]. apply seg_ok_app; [exact P1|exact B1].
+    + intros pre1 He. apply B2. destruct He as [x ->]. exists x. repeat (progress (cbn [app]; rewrite <- ?app_assoc)). reflexivity.
 Qed.
 Lemma pexpected_prog_seg_ok ss : seg_ok [] (pexpected_prog ss).
 Proof.
@@ -2524,8 +3341,16 @@ Qed.
 Lemma pexpected_no_eof : forall ss par d k li, Forall (fun l => ll_type l <> LLT_Eof) (pexpected par d k li ss).
 Proof.
   apply (stmts_mut (fun ss => forall par d k li, Forall (fun l => ll_type l <> LLT_Eof) (pexpected par d k li ss))
-                   (fun c => forall p k li semi, Forall (fun l => ll_type l <> LLT_Eof) (pexpected_body p k li semi c)));
-    cbn [pexpected pexpected_body]; cbv zeta; intros.
+                   (fun c => forall p k li semi, Forall (fun l => ll_type l <> LLT_Eof) (pexpected_body p k li semi c))
+                   (fun a => forall par d k li pend, (forall i, Forall (fun l => ll_type l <> LLT_Eof) (pend i)) ->
+                             Forall (fun l => ll_type l <> LLT_Eof) (arms_pre par d k li a pend)
+                             /\ forall i, Forall (fun l => ll_type l <> LLT_Eof) (arms_pend k li a pend i)));
+    cbn [pexpected pexpected_body arms_pre arms_pend]; cbv zeta; intros; rewrite ?arms_lines_eq.
+  all: try match goal with IHa : forall par d k li pend, _ -> _ /\ _ |- Forall _ (_ :: arms_pre ?par ?d ?k ?li ?a ?pend ++ _) =>
+             destruct (IHa par d k li pend (fun _ => Forall_nil _)) as [A1 A2] end.
+  all: try match goal with IHa : forall par d k li pend, _ -> _ /\ _, Hp : forall i, Forall _ (?pend i) |- _ /\ _ =>
+             split; [apply Forall_cons; [discriminate|]; apply Forall_app; split; [apply Hp|]; apply IHa; intros; auto | apply IHa; intros; auto] end.
+  all: try (split; [apply Forall_nil|assumption]).
   all: repeat (first [ apply Forall_nil | (apply Forall_cons; [discriminate|]) | (apply Forall_app; split) | solve [auto] ]).
 Qed.
 Lemma remap_type pl l : ll_type (remap pl l) = ll_type l. Proof. reflexivity. Qed.
@@ -2605,7 +3430,7 @@ Qed.
 (* without `if`/`while` there are no child lines: no line has a parent *)
 Lemma pexpected_child_free : forall ss d k li, child_free ss = true -> Forall (fun l => ll_parent l = None) (pexpected None d k li ss).
 Proof.
-  induction ss as [|r IH|r IH|b IHb r IHr|b IHb r IHr|b IHb c IHc r IHr|b IHb c IHc r IHr| | |]; intros d k li Hc; cbn [pexpected child_free] in *; cbv zeta;
+  induction ss as [|r IH|r IH|b IHb r IHr|b IHb r IHr|b IHb c IHc r IHr|b IHb c IHc r IHr| | | | |]; intros d k li Hc; cbn [pexpected child_free] in *; cbv zeta;
     try discriminate.
   - constructor.
   - constructor; [reflexivity|apply IH, Hc].
@@ -2640,11 +3465,24 @@ Example fragment_child_lines :
      (1%N, None, [16; 17]); (0%N, None, [18; 19]); (0%N, None, [20])].
 Proof. vm_compute. reflexivity. Qed.
 
+(* a case statement: the child lines of an arm come after the line that follows the arm line *)
+Example fragment_case_lines :
+  let ss := SCaseElse (ACons TSimple (ACons (TBlock (SSimple SNil)) ANil)) (SAssign SNil) (SCase ANil SNil) in
+  map (fun l => (ll_type l, ll_level l, ll_parent l, ll_toks l)) (r_lines (parse_file_model (render_prog ss) []))
+  = [(LLT_Unknown, 0%N, None, [0]); (LLT_CaseHeader, 1%N, None, [1; 2; 3]); (LLT_CaseArm, 2%N, None, [4; 5]);
+     (LLT_CaseArm, 2%N, None, [8; 9]); (LLT_Unknown, 1%N, Some (2, 5), [6; 7]); (LLT_Unknown, 1%N, None, [15]);
+     (LLT_Unknown, 1%N, Some (3, 9), [10]); (LLT_Unknown, 2%N, Some (3, 9), [11; 12]); (LLT_Unknown, 1%N, Some (3, 9), [13; 14]);
+     (LLT_Assignment, 2%N, None, [16; 17; 18; 19]); (LLT_Unknown, 1%N, None, [20; 21]);
+     (LLT_CaseHeader, 1%N, None, [22; 23; 24]); (LLT_Unknown, 1%N, None, [25; 26]);
+     (LLT_Unknown, 0%N, None, [27; 28]); (LLT_Eof, 0%N, None, [29])].
+Proof. vm_compute. reflexivity. Qed.
+
 (* non-vacuity: a program with three nesting levels, all statement forms *)
 Example fragment_example :
   let ss := SSimple (SRepeat (SAssign (STry SNil (SSimple SNil) SNil))
               (STry (SBlock SNil SNil) (SIf (TBlock (SSimple SNil)) SNil)
-                 (SBlock (SAssign (SWhile TSimple SNil)) (SIfElse TAssign TSimple (STryExcept (SSimple SNil) (SAssign SNil) SNil))))) in
+                 (SBlock (SAssign (SWhile TSimple SNil)) (SIfElse TAssign TSimple (STryExcept (SSimple SNil) (SAssign SNil)
+                    (SCaseElse (ACons (TBlock (SCase (ACons TSimple ANil) SNil)) (ACons TAssign ANil)) (SIf TSimple SNil) SNil)))))) in
   r_lines (parse_file_model (render_prog ss) []) = expected_prog ss
   /\ child_free ss = false /\ child_free (SSimple (SRepeat SNil SNil)) = true
   /\ map (fun l => (ll_level l, ll_toks l)) (firstn 9 (expected_prog ss))
